@@ -12,8 +12,8 @@ use std::sync::{Arc, Mutex};
 use std::time::Duration;
 use tokio::sync::mpsc;
 use zipora::concurrency::fiber_pool::{FiberPool, FiberPoolConfig};
-use zipora::concurrency::pipeline::{BatchCollector, Pipeline, PipelineConfig, PipelineStage};
-use zipora::concurrency::work_stealing::{ClosureTask, WorkStealingExecutor};
+use zipora::concurrency::pipeline::{BatchCollector, BatchMapStage, FilterStage, MapStage, Pipeline, PipelineBuilder, PipelineConfig, PipelineStage};
+use zipora::concurrency::work_stealing::{ClosureTask, Task, WorkStealingExecutor, WorkStealingQueue};
 use zipora::error::{Result as ZResult, ZiporaError};
 use zsim_core::{Chan, CheckSpec, Run, Scenario, Tier};
 
@@ -35,6 +35,74 @@ fn now_ms(t0: tokio::time::Instant) -> u64 {
 
 struct Exec;
 
+/// What the audit added to this scenario (all of it swarm-style, so the old shape of run still occurs):
+/// tasks that submit a child task from inside a worker, task bodies that return Err, task bodies that
+/// yield, `submit_closure`, a second wave of submissions after the executor went idle (optionally with
+/// exactly 100 executions behind it, the `total_executed % 100 == 0` state), and `is_idle()` sampled
+/// all the time instead of only at quiescence.
+#[derive(Clone, Copy)]
+struct ExecTask {
+    id: u64,
+    prio: u8,
+    stealable: bool,
+    closure_api: bool,
+    delay: u64,
+    gap: u64,
+    yields: u64,
+    body_yields: u64,
+    returns_err: bool,
+    /// (prio, stealable, delay) of the child this task submits after its own body
+    child: Option<(u8, bool, u64)>,
+}
+
+type BoxedBody = Pin<Box<dyn Future<Output = ZResult<()>> + Send>>;
+
+struct ExecShared {
+    log: Mutex<Vec<(u64, u64)>>,
+    accepted: Mutex<Vec<u64>>,
+    refused: Mutex<Vec<u64>>,
+    events: Mutex<Vec<String>>,
+}
+
+impl ExecShared {
+    fn ev(&self, s: String) {
+        let mut e = self.events.lock().unwrap();
+        if e.len() < 100 {
+            e.push(s);
+        }
+    }
+}
+
+fn exec_body(t: ExecTask, ex: Arc<WorkStealingExecutor>, sh: Arc<ExecShared>, t0: tokio::time::Instant) -> BoxedBody {
+    Box::pin(async move {
+        if t.delay > 0 {
+            tokio::time::sleep(Duration::from_millis(t.delay)).await;
+        }
+        for _ in 0..t.body_yields {
+            tokio::task::yield_now().await;
+        }
+        sh.log.lock().unwrap().push((t.id, now_ms(t0)));
+        if let Some((cp, cs, cd)) = t.child {
+            // a task handing more work to its own executor, from inside a worker
+            let child = ExecTask { id: 1000 + t.id, prio: cp, stealable: cs, closure_api: false, delay: cd, gap: 0, yields: 0, body_yields: 0, returns_err: false, child: None };
+            let (ex2, sh2) = (ex.clone(), sh.clone());
+            let task = ClosureTask::new(move || exec_body(child, ex2, sh2, t0)).with_priority(cp).with_stealable(cs);
+            let ok = ex.submit(Box::new(task)).is_ok();
+            sh.ev(format!("t={}ms task{} submits child task{} prio={} stealable={} body={}ms -> {}", now_ms(t0), t.id, child.id, cp, cs, cd, if ok { "accepted" } else { "refused" }));
+            if ok {
+                sh.accepted.lock().unwrap().push(child.id);
+            } else {
+                sh.refused.lock().unwrap().push(child.id);
+            }
+        }
+        if t.returns_err {
+            Err(ZiporaError::invalid_data("injected task failure"))
+        } else {
+            Ok(())
+        }
+    })
+}
+
 impl Scenario for Exec {
     fn name(&self) -> String {
         "WorkStealingExecutor/submit".into()
@@ -52,77 +120,160 @@ impl Scenario for Exec {
         let capacity = 1 + cfg.below(8) as usize;
         let big = cfg.chance(1, 12);
         let planned = if big { 100 + cfg.below(200) } else { cfg.below(3 * (capacity * workers) as u64 + 2) };
+        // swarm knobs of the audit
+        let two_waves = cfg.chance(1, 4);
+        let wave_gap = *cfg.pick(&[0u64, 3, 150]);
+        let exact_100 = cfg.chance(1, 2);
+        let with_children = cfg.chance(1, 3);
+        let with_failing = cfg.chance(1, 3);
+        let with_body_yields = cfg.chance(1, 3);
+        let with_closure_api = cfg.chance(1, 3);
         let mut ops = cx.src.ops("ops", planned);
-        let mut tasks: Vec<[u64; 4]> = vec![];
+        let mut tasks: Vec<ExecTask> = vec![];
         while let Some(o) = ops.next() {
-            tasks.push(o);
+            let id = tasks.len() as u64;
+            let closure_api = with_closure_api && (o[0] / 4) % 3 == 0;
+            // submit_closure builds a default ClosureTask: priority 0, stealable
+            let prio = if closure_api { 0 } else { (o[0] % 4) as u8 };
+            let stealable = closure_api || o[1] % 4 != 0;
+            let child = if with_children && (o[1] / 4) % 4 == 0 { Some((((o[0] / 12) % 4) as u8, (o[1] / 16) % 3 != 0, [0u64, 0, 1, 3][((o[2] / 20) % 4) as usize])) } else { None };
+            tasks.push(ExecTask {
+                id,
+                prio,
+                stealable,
+                closure_api,
+                delay: [0u64, 0, 1, 3, 20][(o[2] % 5) as usize],
+                gap: [0u64, 0, 0, 1, 7][(o[3] % 5) as usize],
+                yields: (o[3] / 5) % 3,
+                body_yields: if with_body_yields { (o[3] / 15) % 3 } else { 0 },
+                returns_err: with_failing && (o[2] / 5) % 4 == 0,
+                child,
+            });
         }
         install_yields(cx.src.chan("sched"));
-        cx.ev(format!("executor workers={} capacity={} tasks={}", workers, capacity, tasks.len()));
-        let log: Arc<Mutex<Vec<(u64, u64)>>> = Arc::new(Mutex::new(vec![]));
-        let events: Arc<Mutex<Vec<String>>> = Arc::new(Mutex::new(vec![]));
+        let n_tasks = tasks.len();
+        let split = if !two_waves {
+            n_tasks
+        } else if big && exact_100 && n_tasks > 100 {
+            100
+        } else {
+            n_tasks / 2
+        };
+        cx.ev(format!("executor workers={} capacity={} tasks={}{}", workers, capacity, n_tasks, if two_waves { format!(" in two waves ({} + {}), {}ms apart", split, n_tasks - split, wave_gap) } else { String::new() }));
+        let sh = Arc::new(ExecShared { log: Mutex::new(vec![]), accepted: Mutex::new(vec![]), refused: Mutex::new(vec![]), events: Mutex::new(vec![]) });
         let rt = runtime();
-        let (accepted, sum_delay_ms, idle, executed, elapsed_ms, crossed_100) = rt.block_on(async {
+        let sh_outer = sh.clone();
+        let (idle, executed, elapsed_ms, premature, boundary_at_100) = rt.block_on(async {
+            let sh = sh_outer;
             let t0 = tokio::time::Instant::now();
             let ex = WorkStealingExecutor::new(workers, capacity).expect("executor");
-            let mut accepted: Vec<u64> = vec![];
-            let mut sum_delay = 0u64;
-            for (i, o) in tasks.iter().enumerate() {
-                let id = i as u64;
-                let prio = (o[0] % 4) as u8;
-                let stealable = o[1] % 4 != 0;
-                let delay = [0u64, 0, 1, 3, 20][(o[2] % 5) as usize];
-                let gap = [0u64, 0, 0, 1, 7][(o[3] % 5) as usize];
-                let yields = (o[3] / 5) % 3;
-                for _ in 0..yields {
-                    tokio::task::yield_now().await;
-                }
-                if gap > 0 {
-                    tokio::time::sleep(Duration::from_millis(gap)).await;
-                }
-                let log2 = log.clone();
-                let task = ClosureTask::new(move || {
-                    Box::pin(async move {
-                        if delay > 0 {
-                            tokio::time::sleep(Duration::from_millis(delay)).await;
+            let mut premature: Option<String> = None;
+            let mut boundary_at_100 = false;
+            let waves: Vec<&[ExecTask]> = if two_waves { vec![&tasks[..split], &tasks[split..]] } else { vec![&tasks[..]] };
+            let n_waves = waves.len();
+            for (wi, wave) in waves.into_iter().enumerate() {
+                let mut sum_delay = 0u64;
+                for t in wave.iter() {
+                    for _ in 0..t.yields {
+                        tokio::task::yield_now().await;
+                    }
+                    if t.gap > 0 {
+                        tokio::time::sleep(Duration::from_millis(t.gap)).await;
+                    }
+                    if premature.is_none() && ex.is_idle() {
+                        let (ran, acc) = (sh.log.lock().unwrap().len(), sh.accepted.lock().unwrap().len());
+                        if ran < acc {
+                            premature = Some(format!("t={}ms before submitting task{}: is_idle()=true but only {} of {} accepted tasks have run", now_ms(t0), t.id, ran, acc));
                         }
-                        log2.lock().unwrap().push((id, now_ms(t0)));
-                        Ok(())
-                    }) as Pin<Box<dyn Future<Output = ZResult<()>> + Send>>
-                })
-                .with_priority(prio)
-                .with_stealable(stealable);
-                let r = ex.submit(Box::new(task));
-                let ok = r.is_ok();
-                if events.lock().unwrap().len() < 80 {
-                    events.lock().unwrap().push(format!("t={}ms submit task{} prio={} stealable={} body={}ms -> {}", now_ms(t0), id, prio, stealable, delay, if ok { "accepted" } else { "refused" }));
+                    }
+                    let (t2, ex2, sh2) = (*t, ex.clone(), sh.clone());
+                    let r = if t.closure_api {
+                        ex.submit_closure(move || exec_body(t2, ex2, sh2, t0))
+                    } else {
+                        let task = ClosureTask::new(move || exec_body(t2, ex2, sh2, t0)).with_priority(t.prio).with_stealable(t.stealable);
+                        ex.submit(Box::new(task))
+                    };
+                    let ok = r.is_ok();
+                    sh.ev(format!(
+                        "t={}ms {} task{} prio={} stealable={} body={}ms{}{}{} -> {}",
+                        now_ms(t0),
+                        if t.closure_api { "submit_closure" } else { "submit" },
+                        t.id,
+                        t.prio,
+                        t.stealable,
+                        t.delay,
+                        if t.returns_err { " returns-Err" } else { "" },
+                        if t.body_yields > 0 { " yields" } else { "" },
+                        if t.child.is_some() { " has-child" } else { "" },
+                        if ok { "accepted" } else { "refused" }
+                    ));
+                    if ok {
+                        sh.accepted.lock().unwrap().push(t.id);
+                        sum_delay += t.delay + t.child.map_or(0, |c| c.2);
+                    } else {
+                        sh.refused.lock().unwrap().push(t.id);
+                    }
+                    if premature.is_none() && ex.is_idle() {
+                        let (ran, acc) = (sh.log.lock().unwrap().len(), sh.accepted.lock().unwrap().len());
+                        if ran < acc {
+                            premature = Some(format!("t={}ms right after submitting task{}: is_idle()=true but only {} of {} accepted tasks have run", now_ms(t0), t.id, ran, acc));
+                        }
+                    }
                 }
-                if ok {
-                    accepted.push(id);
-                    sum_delay += delay;
+                // submissions of this wave have stopped; every accepted task must have run within
+                // the sum of all body delays + 2 virtual seconds (2000 idle polls of every worker)
+                let deadline = tokio::time::Instant::now() + Duration::from_millis(sum_delay + 2000);
+                let mut quiescent = false;
+                // a few looks at is_idle() between the workers' turns (virtual time does not move here)
+                for _ in 0..6 {
+                    tokio::task::yield_now().await;
+                    let (ran, acc) = (sh.log.lock().unwrap().len(), sh.accepted.lock().unwrap().len());
+                    if premature.is_none() && ran < acc && ex.is_idle() {
+                        premature = Some(format!("t={}ms: is_idle()=true but only {} of {} accepted tasks have run", now_ms(t0), ran, acc));
+                    }
                 }
-            }
-            // submissions and faults have stopped; every accepted task must have run within
-            // the sum of all body delays + 2 virtual seconds (2000 idle polls of every worker)
-            let deadline = tokio::time::Instant::now() + Duration::from_millis(sum_delay + 2000);
-            loop {
-                let done = log.lock().unwrap().len() >= accepted.len() && ex.is_idle();
-                if done || tokio::time::Instant::now() >= deadline {
-                    break;
+                loop {
+                    let (ran, acc) = (sh.log.lock().unwrap().len(), sh.accepted.lock().unwrap().len());
+                    let idle_now = ex.is_idle();
+                    if premature.is_none() && idle_now && ran < acc {
+                        premature = Some(format!("t={}ms: is_idle()=true but only {} of {} accepted tasks have run", now_ms(t0), ran, acc));
+                    }
+                    if ran >= acc && idle_now {
+                        quiescent = true;
+                        break;
+                    }
+                    if tokio::time::Instant::now() >= deadline {
+                        break;
+                    }
+                    tokio::time::sleep(Duration::from_millis(5)).await;
                 }
-                tokio::time::sleep(Duration::from_millis(5)).await;
+                if !quiescent {
+                    break; // judged below: some accepted task has not run within the bound, or the executor is not idle
+                }
+                if wi + 1 < n_waves {
+                    let done = ex.stats().total_executed;
+                    if done > 0 && done % 100 == 0 {
+                        boundary_at_100 = true;
+                    }
+                    sh.ev(format!("t={}ms wave {} done: executor idle after {} executions", now_ms(t0), wi + 1, done));
+                    if wave_gap > 0 {
+                        tokio::time::sleep(Duration::from_millis(wave_gap)).await;
+                    }
+                }
             }
             let idle = ex.is_idle();
             let executed = ex.stats().total_executed;
             let _ = ex.shutdown().await;
-            (accepted, sum_delay, idle, executed, now_ms(t0), tasks.len() >= 100)
+            (idle, executed, now_ms(t0), premature, boundary_at_100)
         });
         drop(rt);
         zsim_core::hooks::reset();
-        for e in events.lock().unwrap().iter() {
+        for e in sh.events.lock().unwrap().iter() {
             cx.ev(e);
         }
-        let log = log.lock().unwrap();
+        let accepted = sh.accepted.lock().unwrap().clone();
+        let refused = sh.refused.lock().unwrap().clone();
+        let log = sh.log.lock().unwrap();
         let mut seen: BTreeMap<u64, u64> = BTreeMap::new();
         for (id, at) in log.iter() {
             *seen.entry(*id).or_insert(0) += 1;
@@ -131,18 +282,24 @@ impl Scenario for Exec {
             }
         }
         cx.sim_ms = elapsed_ms;
-        cx.steps = tasks.len() as u64;
+        cx.steps = n_tasks as u64;
         cx.nontrivial = accepted.len() >= 2;
         cx.probe_n("tasks_accepted", accepted.len() as u64);
-        cx.probe_n("tasks_refused", (tasks.len() - accepted.len()) as u64);
-        if crossed_100 {
+        cx.probe_n("tasks_refused", refused.len() as u64);
+        cx.probe_n("child_tasks_accepted", accepted.iter().filter(|&&id| id >= 1000).count() as u64);
+        if n_tasks >= 100 {
             cx.probe("run_crossed_100_executions");
         }
         if workers == 1 {
             cx.probe("single_worker_run");
         }
-        cx.cell(format!("w{}/c{}/{}", workers, capacity.min(4), if big { "big" } else { "small" }));
-        let _ = sum_delay_ms;
+        if two_waves && accepted.len() >= 2 {
+            cx.probe("second_wave_after_idle");
+        }
+        if boundary_at_100 {
+            cx.probe("second_wave_at_multiple_of_100_executions");
+        }
+        cx.cell(format!("w{}/c{}/{}/{}", workers, capacity.min(4), if big { "big" } else { "small" }, if two_waves { "2w" } else { "1w" }));
         if let Some((id, n)) = seen.iter().find(|(_, n)| **n > 1) {
             cx.violate("task_ran_twice", "WorkStealingExecutor.exactly_once", format!("task{} ran {} times", id, n));
             return;
@@ -162,6 +319,12 @@ impl Scenario for Exec {
         }
         if executed != accepted.len() as u64 {
             cx.violate("executed_count_mismatch", "WorkStealingExecutor.stats", format!("stats().total_executed={} but {} tasks were accepted and ran", executed, accepted.len()));
+            return;
+        }
+        // judged last, so that it never hides one of the clauses above: "the executor becomes idle
+        // after the last one finishes" - not while an accepted task has yet to run
+        if let Some(detail) = premature {
+            cx.violate("idle_before_last_task_finished", "WorkStealingExecutor.is_idle", detail);
         }
     }
 }
@@ -170,6 +333,199 @@ impl Scenario for Exec {
 // fiber pool
 
 struct Fibers;
+
+const FIBER_MODES: [&str; 7] = ["spawn_batch", "parallel_map", "parallel_for_each", "parallel_reduce", "spawn", "parallel_reduce_failing", "abort"];
+
+struct FiberRound {
+    mode: u64,
+    vals: Vec<u64>,
+    delays: Vec<u64>,
+    fails: Vec<bool>,
+    /// secondary key per item: await order (mode "spawn"), which handles are aborted (mode "abort")
+    keys: Vec<u64>,
+}
+
+fn fiber_f(x: u64) -> u64 {
+    x.wrapping_mul(3).wrapping_add(1)
+}
+
+fn fiber_item(v: u64, d: u64, bad: bool) -> impl Future<Output = ZResult<u64>> + Send + 'static {
+    async move {
+        if d > 0 {
+            tokio::time::sleep(Duration::from_millis(d)).await;
+        }
+        if bad {
+            Err(ZiporaError::invalid_data("injected item failure"))
+        } else {
+            Ok(fiber_f(v))
+        }
+    }
+}
+
+/// One operation on the pool; returns the (class, detail) of the first broken clause.  `aborted` is set
+/// when a handle was aborted (the counters are not judged then: the statement says nothing about them).
+async fn fiber_round(pool: &FiberPool, r: &FiberRound, aborted: &mut bool) -> Option<(String, String)> {
+    let n = r.vals.len();
+    let (vals, delays, fails) = (&r.vals, &r.delays, &r.fails);
+    let f = fiber_f;
+    let mut verdict: Option<(String, String)> = None;
+    match r.mode {
+        0 => {
+            let futs: Vec<_> = (0..n).map(|i| fiber_item(vals[i], delays[i], fails[i])).collect();
+            let handles = pool.spawn_batch(futs);
+            if handles.len() != n {
+                verdict = Some(("result_count_mismatch".to_string(), format!("{} handles for {} futures", handles.len(), n)));
+            }
+            for (i, h) in handles.into_iter().enumerate() {
+                let r = h.await;
+                match (r, fails[i]) {
+                    (Ok(v), false) if v == f(vals[i]) => {}
+                    (Err(_), true) => {}
+                    (Ok(v), false) => verdict = verdict.or(Some(("wrong_result".to_string(), format!("item{} -> {} expected {}", i, v, f(vals[i]))))),
+                    (Ok(v), true) => verdict = verdict.or(Some(("failure_swallowed".to_string(), format!("item{} failed but its handle returned Ok({})", i, v)))),
+                    (Err(e), false) => verdict = verdict.or(Some(("spurious_error".to_string(), format!("item{} succeeded but its handle returned Err({})", i, e)))),
+                }
+            }
+        }
+        1 => {
+            let bad: Vec<u64> = (0..n).filter(|&i| fails[i]).map(|i| vals[i]).collect();
+            let bad2 = bad.clone();
+            let r = pool.parallel_map(vals.clone(), move |x: u64| if bad2.contains(&x) { Err(ZiporaError::invalid_data("injected item failure")) } else { Ok(x.wrapping_mul(3).wrapping_add(1)) }).await;
+            let expect: Vec<u64> = vals.iter().map(|&v| f(v)).collect();
+            match r {
+                Ok(v) if bad.is_empty() && v == expect => {}
+                Ok(v) if bad.is_empty() => verdict = Some(("wrong_result".to_string(), format!("parallel_map returned {:?}, sequential map gives {:?}", v, expect))),
+                Ok(v) => verdict = Some(("failure_swallowed".to_string(), format!("an item failed but parallel_map returned Ok with {} results for {} inputs", v.len(), n))),
+                Err(_) if !bad.is_empty() => {}
+                Err(e) => verdict = Some(("spurious_error".to_string(), format!("no item failed but parallel_map returned Err({})", e))),
+            }
+        }
+        2 => {
+            let bad: Vec<u64> = (0..n).filter(|&i| fails[i]).map(|i| vals[i]).collect();
+            let bad2 = bad.clone();
+            let visited: Arc<Mutex<Vec<u64>>> = Arc::new(Mutex::new(vec![]));
+            let v2 = visited.clone();
+            let r = pool
+                .parallel_for_each(vals.clone(), move |x: u64| {
+                    v2.lock().unwrap().push(x);
+                    if bad2.contains(&x) { Err(ZiporaError::invalid_data("injected item failure")) } else { Ok(()) }
+                })
+                .await;
+            for _ in 0..8 {
+                tokio::task::yield_now().await;
+            }
+            let mut vis = visited.lock().unwrap().clone();
+            vis.sort();
+            let mut exp = vals.clone();
+            exp.sort();
+            match r {
+                Ok(()) if bad.is_empty() => {
+                    if vis != exp {
+                        verdict = Some(("wrong_result".to_string(), format!("parallel_for_each visited {:?}, inputs were {:?}", vis, exp)));
+                    }
+                }
+                Ok(()) => verdict = Some(("failure_swallowed".to_string(), "an item failed but parallel_for_each returned Ok".to_string())),
+                Err(_) if !bad.is_empty() => {}
+                Err(e) => verdict = Some(("spurious_error".to_string(), format!("no item failed but parallel_for_each returned Err({})", e))),
+            }
+            let mut dup = vis.clone();
+            dup.dedup();
+            if verdict.is_none() && dup.len() != vis.len() {
+                verdict = Some(("item_visited_twice".to_string(), format!("visited {:?}", vis)));
+            }
+        }
+        3 => {
+            // an associative, NON-commutative operator with a true identity (list concatenation):
+            // the parallel result must equal the sequential left fold, i.e. the inputs in order
+            let lists: Vec<Vec<u64>> = vals.iter().map(|&v| vec![v]).collect();
+            let r = pool
+                .parallel_reduce(lists, Vec::<u64>::new(), |mut a: Vec<u64>, b: Vec<u64>| {
+                    a.extend(b);
+                    Ok(a)
+                })
+                .await;
+            match r {
+                Ok(v) if &v == vals => {}
+                Ok(v) => verdict = Some(("wrong_result".to_string(), format!("parallel_reduce(concat) = {:?} but the sequential fold gives {:?}", v, vals))),
+                Err(e) => verdict = Some(("spurious_error".to_string(), format!("parallel_reduce returned Err({})", e))),
+            }
+        }
+        4 => {
+            // spawn() one by one, handles awaited in a seeded order: every handle delivers its own future's result
+            let handles: Vec<_> = (0..n).map(|i| pool.spawn(fiber_item(vals[i], delays[i], fails[i]))).collect();
+            let mut ids: Vec<u64> = handles.iter().map(|h| h.id()).collect();
+            ids.sort();
+            ids.dedup();
+            if ids.len() != n {
+                verdict = Some(("handle_ids_not_distinct".to_string(), format!("{} distinct fiber ids for {} spawned fibers", ids.len(), n)));
+            }
+            let mut order: Vec<usize> = (0..n).collect();
+            order.sort_by_key(|&i| (r.keys[i] % 8, i));
+            let mut slots: Vec<Option<_>> = handles.into_iter().map(Some).collect();
+            for i in order {
+                let h = slots[i].take().unwrap();
+                let r = h.await;
+                match (r, fails[i]) {
+                    (Ok(v), false) if v == f(vals[i]) => {}
+                    (Err(_), true) => {}
+                    (Ok(v), false) => verdict = verdict.or(Some(("wrong_result".to_string(), format!("item{} -> {} expected {}", i, v, f(vals[i]))))),
+                    (Ok(v), true) => verdict = verdict.or(Some(("failure_swallowed".to_string(), format!("item{} failed but its handle returned Ok({})", i, v)))),
+                    (Err(e), false) => verdict = verdict.or(Some(("spurious_error".to_string(), format!("item{} succeeded but its handle returned Err({})", i, e)))),
+                }
+            }
+        }
+        5 => {
+            // the reducer itself fails on the marked items: that must surface as Err, never as a shorter fold
+            let bad: Vec<u64> = (0..n).filter(|&i| fails[i]).map(|i| vals[i]).collect();
+            let bad2 = bad.clone();
+            let lists: Vec<Vec<u64>> = vals.iter().map(|&v| vec![v]).collect();
+            let r = pool
+                .parallel_reduce(lists, Vec::<u64>::new(), move |mut a: Vec<u64>, b: Vec<u64>| {
+                    if b.len() == 1 && bad2.contains(&b[0]) {
+                        return Err(ZiporaError::invalid_data("injected reducer failure"));
+                    }
+                    a.extend(b);
+                    Ok(a)
+                })
+                .await;
+            match r {
+                Ok(v) if bad.is_empty() && &v == vals => {}
+                Ok(v) if bad.is_empty() => verdict = Some(("wrong_result".to_string(), format!("parallel_reduce(concat) = {:?} but the sequential fold gives {:?}", v, vals))),
+                Ok(v) => verdict = Some(("failure_swallowed".to_string(), format!("the reducer failed on an item but parallel_reduce returned Ok({:?})", v))),
+                Err(_) if !bad.is_empty() => {}
+                Err(e) => verdict = Some(("spurious_error".to_string(), format!("the reducer never failed but parallel_reduce returned Err({})", e))),
+            }
+        }
+        _ => {
+            // some handles are aborted before they are awaited: an aborted handle reports an error (or the
+            // right value if its fiber had already finished); the other handles are not disturbed
+            let futs: Vec<_> = (0..n).map(|i| fiber_item(vals[i], delays[i], fails[i])).collect();
+            let handles = pool.spawn_batch(futs);
+            for _ in 0..(r.keys.first().copied().unwrap_or(0) % 3) {
+                tokio::task::yield_now().await;
+            }
+            let cut: Vec<bool> = (0..n).map(|i| r.keys[i] % 3 == 0).collect();
+            for (i, h) in handles.iter().enumerate() {
+                if cut[i] {
+                    h.abort();
+                    *aborted = true;
+                }
+            }
+            for (i, h) in handles.into_iter().enumerate() {
+                let r = h.await;
+                match (r, fails[i], cut[i]) {
+                    (Ok(v), false, _) if v == f(vals[i]) => {}
+                    (Err(_), true, _) => {}
+                    (Err(_), false, true) => {}
+                    (Ok(v), false, _) => verdict = verdict.or(Some(("wrong_result".to_string(), format!("item{} -> {} expected {}", i, v, f(vals[i]))))),
+                    (Ok(v), true, _) => verdict = verdict.or(Some(("failure_swallowed".to_string(), format!("item{} failed but its handle returned Ok({})", i, v)))),
+                    (Err(e), false, false) => verdict = verdict.or(Some(("spurious_error".to_string(), format!("item{} succeeded and was not aborted but its handle returned Err({})", i, e)))),
+                }
+            }
+        }
+    }
+    verdict
+}
 
 impl Scenario for Fibers {
     fn name(&self) -> String {
@@ -186,142 +542,92 @@ impl Scenario for Fibers {
         let cfg = cx.src.chan("cfg");
         let max_fibers = 1 + cfg.below(4) as usize;
         let max_workers = 1 + cfg.below(4) as usize;
-        let mode = cfg.below(4);
-        let planned = cfg.below(10);
-        let mut ops = cx.src.ops("ops", planned);
-        let mut items: Vec<[u64; 4]> = vec![];
-        while let Some(o) = ops.next() {
-            items.push(o);
+        let mode0 = cfg.below(FIBER_MODES.len() as u64);
+        let planned0 = cfg.below(10);
+        // audit knobs: several operations on the same pool (continued use after an error), the builder
+        let n_rounds = 1 + cfg.biased_zero(3, 1, 3) as usize;
+        let use_builder = cfg.chance(1, 2);
+        let mut rounds: Vec<FiberRound> = vec![];
+        for r in 0..n_rounds {
+            let (mode, planned) = if r == 0 { (mode0, planned0) } else { (cfg.below(FIBER_MODES.len() as u64), cfg.below(10)) };
+            let mut ops = cx.src.ops(&if r == 0 { "ops".to_string() } else { format!("ops.r{}", r) }, planned);
+            let mut items: Vec<[u64; 4]> = vec![];
+            while let Some(o) = ops.next() {
+                if items.len() < 16 {
+                    items.push(o);
+                }
+            }
+            // values are unique within the run and NOT monotone in the index (a result ordered by value is
+            // not the input order)
+            rounds.push(FiberRound {
+                mode,
+                vals: items.iter().enumerate().map(|(i, o)| (r as u64) * 100_000 + (o[0] % 997) * 16 + i as u64).collect(),
+                fails: items.iter().map(|o| o[1] % 6 == 0).collect(),
+                delays: items.iter().map(|o| [0u64, 0, 1, 5, 30][(o[2] % 5) as usize]).collect(),
+                keys: items.iter().map(|o| o[3]).collect(),
+            });
         }
-        let n = items.len();
         install_yields(cx.src.chan("sched"));
-        let mode_name = ["spawn_batch", "parallel_map", "parallel_for_each", "parallel_reduce"][mode as usize];
-        cx.ev(format!("fiber pool max_fibers={} max_workers={} mode={} items={}", max_fibers, max_workers, mode_name, n));
-        // item i: value, delay, fails?
-        let vals: Vec<u64> = items.iter().enumerate().map(|(i, o)| (i as u64) * 1000 + o[0] % 1000).collect();
-        let fails: Vec<bool> = items.iter().map(|o| o[1] % 6 == 0).collect();
-        let delays: Vec<u64> = items.iter().map(|o| [0u64, 0, 1, 5, 30][(o[2] % 5) as usize]).collect();
-        for i in 0..n {
-            cx.ev(format!("item{} value={} delay={}ms fails={}", i, vals[i], delays[i], fails[i]));
+        cx.ev(format!("fiber pool max_fibers={} max_workers={} builder={} operations={}", max_fibers, max_workers, use_builder, n_rounds));
+        for (r, rd) in rounds.iter().enumerate() {
+            cx.ev(format!("operation{} mode={} items={}", r, FIBER_MODES[rd.mode as usize], rd.vals.len()));
+            for i in 0..rd.vals.len() {
+                cx.ev(format!("  item{} value={} delay={}ms fails={} key={}", i, rd.vals[i], rd.delays[i], rd.fails[i], rd.keys[i] % 24));
+            }
         }
         let rt = runtime();
-        let site = format!("FiberPool.{}", mode_name);
+        let mut site = String::new();
+        let mut any_fail = false;
         let verdict: Option<(String, String)> = rt.block_on(async {
-            let pool = FiberPool::new(FiberPoolConfig { max_fibers, initial_workers: 1, max_workers, queue_capacity: 16, idle_timeout: Duration::from_secs(1) }).expect("pool");
-            let f = |x: u64| x.wrapping_mul(3).wrapping_add(1);
+            let pool = if use_builder {
+                zipora::concurrency::fiber_pool::FiberPoolBuilder::new().max_fibers(max_fibers).initial_workers(1).max_workers(max_workers).queue_capacity(16).idle_timeout(Duration::from_secs(1)).build().expect("pool")
+            } else {
+                FiberPool::new(FiberPoolConfig { max_fibers, initial_workers: 1, max_workers, queue_capacity: 16, idle_timeout: Duration::from_secs(1) }).expect("pool")
+            };
             let mut verdict = None;
-            match mode {
-                0 => {
-                    let futs: Vec<_> = (0..n)
-                        .map(|i| {
-                            let (v, d, bad) = (vals[i], delays[i], fails[i]);
-                            async move {
-                                if d > 0 {
-                                    tokio::time::sleep(Duration::from_millis(d)).await;
-                                }
-                                if bad {
-                                    Err(ZiporaError::invalid_data("injected item failure"))
-                                } else {
-                                    Ok(v.wrapping_mul(3).wrapping_add(1))
-                                }
-                            }
-                        })
-                        .collect();
-                    let handles = pool.spawn_batch(futs);
-                    if handles.len() != n {
-                        verdict = Some(("result_count_mismatch".to_string(), format!("{} handles for {} futures", handles.len(), n)));
-                    }
-                    for (i, h) in handles.into_iter().enumerate() {
-                        let r = h.await;
-                        match (r, fails[i]) {
-                            (Ok(v), false) if v == f(vals[i]) => {}
-                            (Err(_), true) => {}
-                            (Ok(v), false) => verdict = verdict.or(Some(("wrong_result".to_string(), format!("item{} -> {} expected {}", i, v, f(vals[i]))))),
-                            (Ok(v), true) => verdict = verdict.or(Some(("failure_swallowed".to_string(), format!("item{} failed but its handle returned Ok({})", i, v)))),
-                            (Err(e), false) => verdict = verdict.or(Some(("spurious_error".to_string(), format!("item{} succeeded but its handle returned Err({})", i, e)))),
-                        }
-                    }
-                }
-                1 => {
-                    let bad: Vec<u64> = (0..n).filter(|&i| fails[i]).map(|i| vals[i]).collect();
-                    let bad2 = bad.clone();
-                    let r = pool.parallel_map(vals.clone(), move |x: u64| if bad2.contains(&x) { Err(ZiporaError::invalid_data("injected item failure")) } else { Ok(x.wrapping_mul(3).wrapping_add(1)) }).await;
-                    let expect: Vec<u64> = vals.iter().map(|&v| f(v)).collect();
-                    match r {
-                        Ok(v) if bad.is_empty() && v == expect => {}
-                        Ok(v) if bad.is_empty() => verdict = Some(("wrong_result".to_string(), format!("parallel_map returned {:?}, sequential map gives {:?}", v, expect))),
-                        Ok(v) => verdict = Some(("failure_swallowed".to_string(), format!("an item failed but parallel_map returned Ok with {} results for {} inputs", v.len(), n))),
-                        Err(_) if !bad.is_empty() => {}
-                        Err(e) => verdict = Some(("spurious_error".to_string(), format!("no item failed but parallel_map returned Err({})", e))),
-                    }
-                }
-                2 => {
-                    let bad: Vec<u64> = (0..n).filter(|&i| fails[i]).map(|i| vals[i]).collect();
-                    let bad2 = bad.clone();
-                    let visited: Arc<Mutex<Vec<u64>>> = Arc::new(Mutex::new(vec![]));
-                    let v2 = visited.clone();
-                    let r = pool
-                        .parallel_for_each(vals.clone(), move |x: u64| {
-                            v2.lock().unwrap().push(x);
-                            if bad2.contains(&x) { Err(ZiporaError::invalid_data("injected item failure")) } else { Ok(()) }
-                        })
-                        .await;
-                    for _ in 0..8 {
-                        tokio::task::yield_now().await;
-                    }
-                    let mut vis = visited.lock().unwrap().clone();
-                    vis.sort();
-                    let mut exp = vals.clone();
-                    exp.sort();
-                    match r {
-                        Ok(()) if bad.is_empty() => {
-                            if vis != exp {
-                                verdict = Some(("wrong_result".to_string(), format!("parallel_for_each visited {:?}, inputs were {:?}", vis, exp)));
-                            }
-                        }
-                        Ok(()) => verdict = Some(("failure_swallowed".to_string(), "an item failed but parallel_for_each returned Ok".to_string())),
-                        Err(_) if !bad.is_empty() => {}
-                        Err(e) => verdict = Some(("spurious_error".to_string(), format!("no item failed but parallel_for_each returned Err({})", e))),
-                    }
-                    let mut dup = vis.clone();
-                    dup.dedup();
-                    if verdict.is_none() && dup.len() != vis.len() {
-                        verdict = Some(("item_visited_twice".to_string(), format!("visited {:?}", vis)));
-                    }
-                }
-                _ => {
-                    // an associative, NON-commutative operator with a true identity (list concatenation):
-                    // the parallel result must equal the sequential left fold, i.e. the inputs in order
-                    let lists: Vec<Vec<u64>> = vals.iter().map(|&v| vec![v]).collect();
-                    let r = pool
-                        .parallel_reduce(lists, Vec::<u64>::new(), |mut a: Vec<u64>, b: Vec<u64>| {
-                            a.extend(b);
-                            Ok(a)
-                        })
-                        .await;
-                    match r {
-                        Ok(v) if v == vals => {}
-                        Ok(v) => verdict = Some(("wrong_result".to_string(), format!("parallel_reduce(concat) = {:?} but the sequential fold gives {:?}", v, vals))),
-                        Err(e) => verdict = Some(("spurious_error".to_string(), format!("parallel_reduce returned Err({})", e))),
-                    }
+            let mut aborted = false;
+            for rd in rounds.iter() {
+                site = format!("FiberPool.{}", match rd.mode { 5 => "parallel_reduce", m => FIBER_MODES[m as usize] });
+                any_fail |= rd.fails.iter().any(|&b| b);
+                // no legal execution needs more than the sum of the item delays; 120 virtual seconds is the watchdog
+                verdict = match tokio::time::timeout(Duration::from_secs(120), fiber_round(&pool, rd, &mut aborted)).await {
+                    Ok(v) => v,
+                    Err(_) => Some(("operation_never_completed".to_string(), format!("{} on {} items did not return within 120 virtual seconds", FIBER_MODES[rd.mode as usize], rd.vals.len()))),
+                };
+                if verdict.is_some() {
+                    return verdict;
                 }
             }
             // quiescence: let detached fibers finish, then the counters must add up
             tokio::time::sleep(Duration::from_millis(100)).await;
             let s = pool.stats();
-            if verdict.is_none() && s.completed + s.failed != s.total_spawned {
+            if !aborted && s.completed + s.failed != s.total_spawned {
                 verdict = Some(("counters_do_not_add_up".to_string(), format!("completed {} + failed {} != total_spawned {}", s.completed, s.failed, s.total_spawned)));
             }
-            if verdict.is_none() && s.active_fibers != 0 {
+            if verdict.is_none() && !aborted && s.active_fibers != 0 {
                 verdict = Some(("counters_do_not_add_up".to_string(), format!("active_fibers={} at quiescence", s.active_fibers)));
+            }
+            if verdict.is_none() {
+                // every fiber has finished or was aborted: shutdown() ("wait for all active fibers") must return
+                site = "FiberPool.shutdown".to_string();
+                match tokio::time::timeout(Duration::from_secs(120), pool.shutdown()).await {
+                    Ok(Ok(())) => {}
+                    Ok(Err(e)) => verdict = Some(("spurious_error".to_string(), format!("shutdown() of a quiescent pool returned Err({})", e))),
+                    Err(_) => verdict = Some(("operation_never_completed".to_string(), "shutdown() of a quiescent pool did not return within 120 virtual seconds (a permit was never given back)".to_string())),
+                }
             }
             verdict
         });
         drop(rt);
+        zsim_core::hooks::reset();
+        let n: usize = rounds.iter().map(|r| r.vals.len()).sum();
         cx.steps = n as u64;
         cx.nontrivial = n >= 2;
-        cx.cell(format!("{}/f{}/{}", mode_name, max_fibers, if fails.iter().any(|&b| b) { "fail" } else { "ok" }));
-        if fails.iter().any(|&b| b) {
+        if n_rounds > 1 {
+            cx.probe("several_operations_on_one_pool");
+        }
+        cx.cell(format!("{}/f{}/{}", FIBER_MODES[rounds[0].mode as usize], max_fibers, if rounds[0].fails.iter().any(|&b| b) { "fail" } else { "ok" }));
+        if any_fail {
             cx.fault("item_failure");
         }
         if let Some((class, detail)) = verdict {
@@ -404,7 +710,9 @@ impl Scenario for Pipe {
             items.push(o);
         }
         let n = items.len();
-        let inputs: Vec<u64> = (0..n).map(|i| (i as u64 + 1) * 100).collect();
+        // unique, and (audit) not sorted: a result ordered by value is not the input order
+        let inputs: Vec<u64> = (0..n).map(|i| (items[i][1] % 7) * 1000 + (i as u64 + 1) * 100).collect();
+        let use_builder = cfg.chance(1, 2);
         // each stage s adds 10^s*... keep values distinct: stage s adds (s+1)
         let mut stages: Vec<SimStage> = vec![];
         let mut first_bad: Option<usize> = None; // index of the first input that fails or hangs somewhere
@@ -444,13 +752,17 @@ impl Scenario for Pipe {
             }
         }
         let expect: Vec<u64> = inputs.iter().map(|&x| stages.iter().fold(x, |a, st| st.apply(a))).collect();
-        cx.ev(format!("pipeline mode={} stages={} buffer={} batching={}/{} stage_timeout={}ms items={}", mode_name, nstages, buffer, batching, stage_batching, timeout_ms, n));
+        cx.ev(format!("pipeline mode={} stages={} buffer={} batching={}/{} stage_timeout={}ms items={} builder={}", mode_name, nstages, buffer, batching, stage_batching, timeout_ms, n, use_builder));
         let site = format!("Pipeline.{}", mode_name);
         let rt = runtime();
         let t_start = std::time::Instant::now();
         let (verdict, elapsed): (Option<(String, String)>, u64) = rt.block_on(async {
             let t0 = tokio::time::Instant::now();
-            let pipeline = Pipeline::new(PipelineConfig { buffer_size: buffer, max_in_flight: 16, stage_timeout: Duration::from_millis(timeout_ms), enable_batching: batching, batch_size: 2, batch_timeout: Duration::from_millis(10) });
+            let pipeline = if use_builder {
+                PipelineBuilder::new().buffer_size(buffer).max_in_flight(16).stage_timeout(Duration::from_millis(timeout_ms)).enable_batching(batching).batch_size(2).batch_timeout(Duration::from_millis(10)).build()
+            } else {
+                Pipeline::new(PipelineConfig { buffer_size: buffer, max_in_flight: 16, stage_timeout: Duration::from_millis(timeout_ms), enable_batching: batching, batch_size: 2, batch_timeout: Duration::from_millis(10) })
+            };
             let mut verdict = None;
             match mode {
                 0 | 1 => {
@@ -756,17 +1068,1269 @@ impl Scenario for ConcurrentSubmit {
     }
 }
 
+// ------------------------------------------------------------------------------------------
+// audit: the queue API driven directly (push_local / pop_local / steal / balance / len), sequentially
+// against a set model, and by 2-3 threads under the E1 scheduler
+
+/// A hand-written `Task` (not `ClosureTask`): running it appends its id to `out`.
+struct IdTask {
+    id: u64,
+    prio: u8,
+    stealable: bool,
+    out: Arc<Mutex<Vec<u64>>>,
+}
+
+impl Task for IdTask {
+    fn execute(self: Box<Self>) -> Pin<Box<dyn Future<Output = ZResult<()>> + Send>> {
+        Box::pin(async move {
+            self.out.lock().unwrap().push(self.id);
+            Ok(())
+        })
+    }
+    fn priority(&self) -> u8 {
+        self.prio
+    }
+    fn is_stealable(&self) -> bool {
+        self.stealable
+    }
+}
+
+/// Relies on the trait's defaults (priority 0, stealable).
+struct PlainTask {
+    id: u64,
+    out: Arc<Mutex<Vec<u64>>>,
+}
+
+impl Task for PlainTask {
+    fn execute(self: Box<Self>) -> Pin<Box<dyn Future<Output = ZResult<()>> + Send>> {
+        Box::pin(async move {
+            self.out.lock().unwrap().push(self.id);
+            Ok(())
+        })
+    }
+}
+
+fn make_task(id: u64, o: &[u64; 4], out: &Arc<Mutex<Vec<u64>>>) -> (Box<dyn Task>, u8, bool) {
+    if o[1] % 5 == 4 {
+        (Box::new(PlainTask { id, out: out.clone() }), 0, true)
+    } else {
+        let (prio, stealable) = ((o[1] % 4) as u8, (o[1] / 5) % 3 != 0);
+        (Box::new(IdTask { id, prio, stealable, out: out.clone() }), prio, stealable)
+    }
+}
+
+/// Run a task that came out of a queue, on the spot (its future never waits).
+fn run_now(t: Box<dyn Task>) {
+    let mut fut = t.execute();
+    let waker = std::task::Waker::noop();
+    let mut c = std::task::Context::from_waker(waker);
+    let _ = fut.as_mut().poll(&mut c);
+}
+
+struct QueueModel;
+
+impl Scenario for QueueModel {
+    fn name(&self) -> String {
+        "WorkStealingQueue/model".into()
+    }
+    fn budget(&self, tier: Tier) -> u64 {
+        match tier {
+            Tier::Quick => 20000,
+            Tier::Thorough => 1_500_000,
+        }
+    }
+    fn run(&self, cx: &mut Run) {
+        zsim_core::hooks::reset();
+        let cfg = cx.src.chan("cfg");
+        let capacity = 1 + cfg.below(6) as usize;
+        // swarm: some runs have no steals / no balance / mostly pushes
+        let w_push = *cfg.pick(&[3u32, 5, 8]);
+        let w_pop = *cfg.pick(&[0u32, 2, 3]);
+        let w_steal = *cfg.pick(&[0u32, 2, 3]);
+        let w_balance = *cfg.pick(&[0u32, 1, 3]);
+        let planned = 1 + cfg.below(24);
+        let q = WorkStealingQueue::new(cfg.below(3) as usize, capacity);
+        cx.ev(format!("queue capacity={} worker_id={}", capacity, q.worker_id()));
+        let out: Arc<Mutex<Vec<u64>>> = Arc::new(Mutex::new(vec![]));
+        let mut inside: std::collections::BTreeSet<u64> = Default::default();
+        let mut gone: std::collections::BTreeSet<u64> = Default::default();
+        let mut refused: std::collections::BTreeSet<u64> = Default::default();
+        let mut next_id = 0u64;
+        let mut ops = cx.src.ops("ops", planned);
+        let weights = [w_push, w_pop, w_steal, w_balance];
+        let total: u64 = weights.iter().map(|&w| w as u64).sum();
+        let mut took = |cx: &mut Run, how: &str, t: Option<Box<dyn Task>>, inside: &mut std::collections::BTreeSet<u64>, gone: &mut std::collections::BTreeSet<u64>| -> bool {
+            match t {
+                None => {
+                    cx.ev(format!("{} -> None", how));
+                    true
+                }
+                Some(t) => {
+                    let before = out.lock().unwrap().len();
+                    run_now(t);
+                    let o = out.lock().unwrap();
+                    if o.len() != before + 1 {
+                        drop(o);
+                        cx.violate("task_did_not_run", "WorkStealingQueue.exactly_once", format!("{} returned a task whose execute() did not run its body", how));
+                        return false;
+                    }
+                    let id = o[before];
+                    drop(o);
+                    cx.ev(format!("{} -> task{}", how, id));
+                    if !inside.remove(&id) {
+                        let class = if gone.contains(&id) { "task_came_out_twice" } else { "refused_task_came_out" };
+                        cx.violate(class, "WorkStealingQueue.exactly_once", format!("{} returned task{}, which is not in the queue (already out: {:?}; refused: {})", how, id, gone, !gone.contains(&id)));
+                        return false;
+                    }
+                    gone.insert(id);
+                    true
+                }
+            }
+        };
+        let mut steps = 0u64;
+        while let Some(o) = ops.next() {
+            steps += 1;
+            let mut x = o[0] % total.max(1);
+            let mut kind = 0;
+            for (k, &w) in weights.iter().enumerate() {
+                if x < w as u64 {
+                    kind = k;
+                    break;
+                }
+                x -= w as u64;
+            }
+            match kind {
+                0 => {
+                    let id = next_id;
+                    next_id += 1;
+                    let (t, prio, stealable) = make_task(id, &o, &out);
+                    let r = q.push_local(t);
+                    cx.ev(format!("push_local(task{} prio={} stealable={}) -> {}", id, prio, stealable, if r.is_ok() { "ok" } else { "refused" }));
+                    if r.is_ok() {
+                        inside.insert(id);
+                    } else {
+                        refused.insert(id);
+                        cx.probe("push_refused_queue_full");
+                    }
+                }
+                1 => {
+                    if !took(cx, "pop_local()", q.pop_local(), &mut inside, &mut gone) {
+                        return;
+                    }
+                }
+                2 => {
+                    if !took(cx, "steal()", q.steal(), &mut inside, &mut gone) {
+                        return;
+                    }
+                }
+                _ => {
+                    q.balance();
+                    cx.ev("balance()");
+                }
+            }
+            let (len, empty) = (q.len(), q.is_empty());
+            if len != inside.len() || empty != inside.is_empty() {
+                cx.violate("len_mismatch", "WorkStealingQueue.len", format!("len()={} is_empty()={} but {} tasks were pushed and have not come out: {:?}", len, empty, inside.len(), inside));
+                return;
+            }
+        }
+        // drain: whatever is still inside comes out through pop_local (local queue) or steal (steal queue)
+        let mut rounds = 0;
+        loop {
+            let a = q.pop_local();
+            let got_a = a.is_some();
+            if got_a && !took(cx, "drain pop_local()", a, &mut inside, &mut gone) {
+                return;
+            }
+            let b = q.steal();
+            let got_b = b.is_some();
+            if got_b && !took(cx, "drain steal()", b, &mut inside, &mut gone) {
+                return;
+            }
+            rounds += 1;
+            if (!got_a && !got_b) || rounds > 100 {
+                break;
+            }
+        }
+        cx.steps = steps;
+        cx.nontrivial = gone.len() >= 2;
+        if gone.len() >= capacity {
+            cx.probe("as_many_tasks_as_capacity");
+        }
+        if !inside.is_empty() {
+            cx.violate("task_lost", "WorkStealingQueue.exactly_once", format!("tasks {:?} were accepted by push_local and never came out of pop_local/steal (len()={})", inside, q.len()));
+        }
+    }
+}
+
+struct QueueThreads;
+
+impl Scenario for QueueThreads {
+    fn name(&self) -> String {
+        "WorkStealingQueue/concurrent-ops".into()
+    }
+    fn budget(&self, tier: Tier) -> u64 {
+        match tier {
+            Tier::Quick => 5000,
+            Tier::Thorough => 400_000,
+        }
+    }
+    fn run(&self, cx: &mut Run) {
+        use zsim_core::e1;
+        zsim_core::hooks::reset();
+        let cfg = cx.src.chan("cfg");
+        let capacity = 2 + cfg.below(4) as usize;
+        let nthreads = 2 + cfg.biased_zero(2, 1, 3) as usize;
+        let prefill = cfg.below(capacity as u64 + 1);
+        let e1cfg = e1::draw_cfg(&cfg, 12000);
+        let q = Arc::new(WorkStealingQueue::new(0, capacity));
+        let out: Arc<Mutex<Vec<u64>>> = Arc::new(Mutex::new(vec![]));
+        let accepted: Arc<Mutex<Vec<u64>>> = Arc::new(Mutex::new(vec![]));
+        let events: Arc<Mutex<Vec<String>>> = Arc::new(Mutex::new(vec![]));
+        cx.ev(format!("queue capacity={} threads={} (thread 0 = owner: push/pop/balance; others: steal/push/len) prefilled={}", capacity, nthreads, prefill));
+        let pre = cx.src.chan("prefill");
+        for i in 0..prefill {
+            let id = 900 + i;
+            let o = [0, pre.below(20), 0, 0];
+            let (t, prio, stealable) = make_task(id, &o, &out);
+            if q.push_local(t).is_ok() {
+                accepted.lock().unwrap().push(id);
+                cx.ev(format!("prefill task{} prio={} stealable={}", id, prio, stealable));
+            }
+        }
+        let mut bodies: Vec<e1::Body> = vec![];
+        for t in 0..nthreads {
+            let planned = 1 + cfg.below(5);
+            let mut ops = cx.src.ops(&format!("ops.t{}", t), planned);
+            let mut list = vec![];
+            while let Some(o) = ops.next() {
+                list.push(o);
+            }
+            let (q, out, accepted, events) = (q.clone(), out.clone(), accepted.clone(), events.clone());
+            bodies.push(Box::new(move |me: usize| {
+                for (i, o) in list.iter().enumerate() {
+                    let id = (me as u64) * 100 + i as u64;
+                    // owner: 0-3 push, 4-5 pop, 6-7 balance; thieves: 0-4 steal, 5-6 push, 7 len
+                    let k = o[0] % 8;
+                    let what = if me == 0 { [0, 0, 0, 0, 1, 1, 3, 3][k as usize] } else { [2, 2, 2, 2, 2, 0, 0, 4][k as usize] };
+                    match what {
+                        0 => {
+                            let (task, prio, stealable) = make_task(id, o, &out);
+                            let ok = q.push_local(task).is_ok();
+                            if ok {
+                                accepted.lock().unwrap().push(id);
+                            }
+                            events.lock().unwrap().push(format!("t{} push_local(task{} prio={} stealable={}) -> {}", me, id, prio, stealable, if ok { "ok" } else { "refused" }));
+                        }
+                        1 | 2 => {
+                            let r = if what == 1 { q.pop_local() } else { q.steal() };
+                            let got = r.is_some();
+                            if let Some(task) = r {
+                                run_now(task);
+                            }
+                            events.lock().unwrap().push(format!("t{} {} -> {}", me, if what == 1 { "pop_local()" } else { "steal()" }, if got { "a task" } else { "None" }));
+                        }
+                        3 => {
+                            q.balance();
+                            events.lock().unwrap().push(format!("t{} balance()", me));
+                        }
+                        _ => {
+                            let n = q.len();
+                            events.lock().unwrap().push(format!("t{} len() -> {}", me, n));
+                        }
+                    }
+                }
+            }));
+        }
+        let sched = cx.src.chan("sched");
+        let res = e1::run_threads(&sched, &e1cfg, bodies, None);
+        for e in events.lock().unwrap().iter() {
+            cx.ev(e);
+        }
+        cx.trace.feed(res.hash);
+        cx.steps = res.steps;
+        cx.probe_n("context_switches", res.switches);
+        cx.nontrivial = res.switches >= 1;
+        cx.abandoned = res.abandoned;
+        if let Some(v) = res.violation {
+            cx.violate(&v.class, &v.site, v.detail);
+            return;
+        }
+        if res.abandoned {
+            cx.probe("abandoned_at_step_cap");
+            cx.ev("abandoned at the step cap");
+            return;
+        }
+        let ran_during = out.lock().unwrap().len();
+        let left = q.len();
+        let mut rounds = 0;
+        loop {
+            let a = q.pop_local();
+            let b = q.steal();
+            let none = a.is_none() && b.is_none();
+            if let Some(t) = a {
+                run_now(t);
+            }
+            if let Some(t) = b {
+                run_now(t);
+            }
+            rounds += 1;
+            if none || rounds > 100 {
+                break;
+            }
+        }
+        let accepted = accepted.lock().unwrap().clone();
+        let out = out.lock().unwrap();
+        cx.ev(format!("{} tasks came out while the threads ran; len()={} afterwards; {} came out in all; accepted {:?}; out {:?}", ran_during, left, out.len(), accepted, out));
+        let mut seen: BTreeMap<u64, u64> = BTreeMap::new();
+        for id in out.iter() {
+            *seen.entry(*id).or_insert(0) += 1;
+        }
+        if let Some((id, n)) = seen.iter().find(|(_, n)| **n > 1) {
+            cx.violate("task_came_out_twice", "WorkStealingQueue.concurrent_ops", format!("task{} came out {} times", id, n));
+            return;
+        }
+        if let Some((id, _)) = seen.iter().find(|(id, _)| !accepted.contains(id)) {
+            cx.violate("refused_task_came_out", "WorkStealingQueue.concurrent_ops", format!("push_local refused task{} but it came out of the queue", id));
+            return;
+        }
+        let missing: Vec<u64> = accepted.iter().filter(|id| !seen.contains_key(id)).cloned().collect();
+        if !missing.is_empty() {
+            cx.violate("task_lost", "WorkStealingQueue.concurrent_ops", format!("tasks {:?} were accepted by push_local and never came out ({} came out while the threads ran, len() was {} afterwards)", missing, ran_during, left));
+            return;
+        }
+        if left + ran_during != accepted.len() {
+            cx.violate("len_mismatch", "WorkStealingQueue.len", format!("after the threads finished len()={} but {} tasks were accepted and {} had come out", left, accepted.len(), ran_during));
+        }
+    }
+}
+
+// ------------------------------------------------------------------------------------------
+// audit: the module-level helpers of concurrency/mod.rs (spawn / join_all / parallel_map / parallel_reduce)
+
+struct FreeFns;
+
+const FREE_MODES: [&str; 4] = ["join_all", "parallel_map", "parallel_reduce", "parallel_reduce_failing"];
+
+impl Scenario for FreeFns {
+    fn name(&self) -> String {
+        "concurrency/free-functions".into()
+    }
+    fn budget(&self, tier: Tier) -> u64 {
+        match tier {
+            Tier::Quick => 8000,
+            Tier::Thorough => 500_000,
+        }
+    }
+    fn run(&self, cx: &mut Run) {
+        use zipora::concurrency as zc;
+        zsim_core::hooks::reset();
+        let cfg = cx.src.chan("cfg");
+        let mode = cfg.below(FREE_MODES.len() as u64);
+        // more items than any machine here has cores in some runs: parallel_reduce then has chunks of more than one item
+        let planned = if cfg.chance(1, 4) { 17 + cfg.below(48) } else { cfg.below(10) };
+        let may_fail = cfg.chance(1, 2);
+        let mut ops = cx.src.ops("ops", planned);
+        let mut items: Vec<[u64; 4]> = vec![];
+        while let Some(o) = ops.next() {
+            if items.len() < 64 {
+                items.push(o);
+            }
+        }
+        let n = items.len();
+        let vals: Vec<u64> = items.iter().enumerate().map(|(i, o)| (o[0] % 997) * 64 + i as u64).collect();
+        let fails: Vec<bool> = items.iter().map(|o| may_fail && o[1] % 6 == 0).collect();
+        let delays: Vec<u64> = items.iter().map(|o| [0u64, 0, 1, 5, 30][(o[2] % 5) as usize]).collect();
+        cx.ev(format!("free functions mode={} items={}", FREE_MODES[mode as usize], n));
+        for i in 0..n.min(40) {
+            cx.ev(format!("item{} value={} delay={}ms fails={}", i, vals[i], delays[i], fails[i]));
+        }
+        let bad: Vec<u64> = (0..n).filter(|&i| fails[i]).map(|i| vals[i]).collect();
+        let expect: Vec<u64> = vals.iter().map(|&v| fiber_f(v)).collect();
+        let site = format!("concurrency.{}", match mode { 3 => "parallel_reduce", m => FREE_MODES[m as usize] });
+        let rt = runtime();
+        let verdict: Option<(String, String)> = rt.block_on(async {
+            let work = async {
+                match mode {
+                    0 => {
+                        let handles: Vec<_> = (0..n).map(|i| zc::spawn(fiber_item(vals[i], delays[i], fails[i]))).collect();
+                        match zc::join_all(handles).await {
+                            Ok(v) if bad.is_empty() && v == expect => None,
+                            Ok(v) if bad.is_empty() => Some(("wrong_result".to_string(), format!("join_all returned {:?}, the fibers in handle order give {:?}", v, expect))),
+                            Ok(v) => Some(("failure_swallowed".to_string(), format!("a fiber failed but join_all returned Ok with {} results for {} handles", v.len(), n))),
+                            Err(_) if !bad.is_empty() => None,
+                            Err(e) => Some(("spurious_error".to_string(), format!("no fiber failed but join_all returned Err({})", e))),
+                        }
+                    }
+                    1 => {
+                        let bad2 = bad.clone();
+                        let r = zc::parallel_map(vals.clone(), move |x: u64| if bad2.contains(&x) { Err(ZiporaError::invalid_data("injected item failure")) } else { Ok(fiber_f(x)) }).await;
+                        match r {
+                            Ok(v) if bad.is_empty() && v == expect => None,
+                            Ok(v) if bad.is_empty() => Some(("wrong_result".to_string(), format!("parallel_map returned {:?}, sequential map gives {:?}", v, expect))),
+                            Ok(v) => Some(("failure_swallowed".to_string(), format!("an item failed but parallel_map returned Ok with {} results for {} inputs", v.len(), n))),
+                            Err(_) if !bad.is_empty() => None,
+                            Err(e) => Some(("spurious_error".to_string(), format!("no item failed but parallel_map returned Err({})", e))),
+                        }
+                    }
+                    _ => {
+                        let bad2 = if mode == 3 { bad.clone() } else { vec![] };
+                        let lists: Vec<Vec<u64>> = vals.iter().map(|&v| vec![v]).collect();
+                        let r = zc::parallel_reduce(lists, Vec::<u64>::new(), move |mut a: Vec<u64>, b: Vec<u64>| {
+                            if b.len() == 1 && bad2.contains(&b[0]) {
+                                return Err(ZiporaError::invalid_data("injected reducer failure"));
+                            }
+                            a.extend(b);
+                            Ok(a)
+                        })
+                        .await;
+                        let failing = mode == 3 && !bad.is_empty();
+                        match r {
+                            Ok(v) if !failing && v == vals => None,
+                            Ok(v) if !failing => Some(("wrong_result".to_string(), format!("parallel_reduce(concat) = {:?} but the sequential fold gives {:?}", v, vals))),
+                            Ok(v) => Some(("failure_swallowed".to_string(), format!("the reducer failed on an item but parallel_reduce returned Ok with {} elements", v.len()))),
+                            Err(_) if failing => None,
+                            Err(e) => Some(("spurious_error".to_string(), format!("the reducer never failed but parallel_reduce returned Err({})", e))),
+                        }
+                    }
+                }
+            };
+            match tokio::time::timeout(Duration::from_secs(600), work).await {
+                Ok(v) => v,
+                Err(_) => Some(("operation_never_completed".to_string(), format!("{} on {} items did not return within 600 virtual seconds", FREE_MODES[mode as usize], n))),
+            }
+        });
+        drop(rt);
+        cx.steps = n as u64;
+        cx.nontrivial = n >= 2;
+        if n > 16 {
+            cx.probe("more_than_16_items");
+        }
+        if !bad.is_empty() {
+            cx.fault("item_failure");
+        }
+        cx.cell(format!("{}/{}", FREE_MODES[mode as usize], if bad.is_empty() { "ok" } else { "fail" }));
+        if let Some((class, detail)) = verdict {
+            cx.violate(&class, &site, detail);
+        }
+    }
+}
+
+// ------------------------------------------------------------------------------------------
+// audit: the sequence-returning helpers of fiber_yield.rs and fiber_aio.rs (no files involved)
+
+/// distinct powers of two as delays: whatever the concurrency limit, no two operations ever complete at
+/// the same virtual instant, so the completion order is a function of the tapes alone
+fn pow2_delays(keys: &[u64]) -> Vec<u64> {
+    let n = keys.len();
+    let mut order: Vec<usize> = (0..n).collect();
+    order.sort_by_key(|&i| (keys[i] % 16, i));
+    let mut d = vec![0u64; n];
+    for (rank, &i) in order.iter().enumerate() {
+        d[i] = 1u64 << rank;
+    }
+    d
+}
+
+struct Coop;
+
+const COOP_MODES: [&str; 7] = ["run_with_yield", "process_vec_yielding", "YieldingIterator.for_each", "YieldingIterator.collect", "concurrent_with_yield", "FiberIoUtils.batch_process", "FiberIoUtils.process_files_parallel"];
+
+impl Scenario for Coop {
+    fn name(&self) -> String {
+        "CooperativeUtils/sequences".into()
+    }
+    fn budget(&self, tier: Tier) -> u64 {
+        match tier {
+            Tier::Quick => 8000,
+            Tier::Thorough => 500_000,
+        }
+    }
+    fn run(&self, cx: &mut Run) {
+        use zipora::concurrency::fiber_aio::FiberIoUtils;
+        use zipora::concurrency::fiber_yield::{CooperativeUtils, YieldingIterator};
+        zsim_core::hooks::reset();
+        let cfg = cx.src.chan("cfg");
+        let mode = cfg.below(COOP_MODES.len() as u64);
+        let planned = cfg.below(9);
+        let may_fail = cfg.chance(1, 2);
+        let knob = cfg.below(5);
+        let mut ops = cx.src.ops("ops", planned);
+        let mut items: Vec<[u64; 4]> = vec![];
+        while let Some(o) = ops.next() {
+            if items.len() < 8 {
+                items.push(o);
+            }
+        }
+        let n = items.len();
+        // yield interval / batch size / concurrency limit: 1, 2, 3, exactly n, n + 1 (never 0: `x % 0` and
+        // `chunks(0)` are the callers' business)
+        let k = [1usize, 2, 3, n.max(1), n + 1][knob as usize];
+        let vals: Vec<u64> = items.iter().enumerate().map(|(i, o)| (o[0] % 997) * 16 + i as u64).collect();
+        let fails: Vec<bool> = items.iter().map(|o| may_fail && o[1] % 5 == 0).collect();
+        let delays = pow2_delays(&items.iter().map(|o| o[2]).collect::<Vec<_>>());
+        let first_bad = fails.iter().position(|&b| b);
+        cx.ev(format!("mode={} items={} interval/batch/limit={}", COOP_MODES[mode as usize], n, k));
+        for i in 0..n {
+            cx.ev(format!("item{} value={} delay={}ms fails={}", i, vals[i], delays[i], fails[i]));
+        }
+        let expect: Vec<u64> = vals.iter().map(|&v| fiber_f(v)).collect();
+        let site = if mode <= 1 || mode == 4 { format!("CooperativeUtils.{}", COOP_MODES[mode as usize]) } else { COOP_MODES[mode as usize].to_string() };
+        let calls: Arc<Mutex<Vec<u64>>> = Arc::new(Mutex::new(vec![]));
+        let rt = runtime();
+        let calls2 = calls.clone();
+        let verdict: Option<(String, String)> = rt.block_on(async {
+            let calls = calls2;
+            let bad: Vec<u64> = (0..n).filter(|&i| fails[i]).map(|i| vals[i]).collect();
+            // sequential helpers: f is called at most once per item, in input order, and at least on every item
+            // up to and including the first failing one (whether it goes on after a failure is its own business)
+            let judge_seq = |r: ZResult<Vec<u64>>, what: &str| -> Option<(String, String)> {
+                let seen = calls.lock().unwrap().clone();
+                let upto = first_bad.map_or(n, |b| b + 1);
+                if seen.len() > n || seen[..] != vals[..seen.len()] {
+                    return Some(("item_processed_twice_or_out_of_order".to_string(), format!("{} called the function on {:?}; the items are {:?}", what, seen, vals)));
+                }
+                if seen.len() < upto {
+                    return Some(("item_not_processed".to_string(), format!("{} called the function on {:?} only; sequential processing reaches {:?}", what, seen, &vals[..upto])));
+                }
+                match (r, first_bad) {
+                    (Ok(v), None) if v == expect => None,
+                    (Ok(v), None) => Some(("wrong_result".to_string(), format!("{} returned {:?}, sequential map gives {:?}", what, v, expect))),
+                    (Ok(v), Some(b)) => Some(("failure_swallowed".to_string(), format!("item{} failed but {} returned Ok with {} results for {} inputs", b, what, v.len(), n))),
+                    (Err(_), Some(_)) => None,
+                    (Err(e), None) => Some(("spurious_error".to_string(), format!("no item failed but {} returned Err({})", what, e))),
+                }
+            };
+            let work = async {
+                match mode {
+                    0 => {
+                        let (c2, v2, b2) = (calls.clone(), vals.clone(), bad.clone());
+                        let r = CooperativeUtils::run_with_yield(n, k, move |i| {
+                            c2.lock().unwrap().push(v2[i]);
+                            if b2.contains(&v2[i]) { Err(ZiporaError::invalid_data("injected item failure")) } else { Ok(fiber_f(v2[i])) }
+                        })
+                        .await;
+                        judge_seq(r, "run_with_yield")
+                    }
+                    1 => {
+                        let (c2, b2) = (calls.clone(), bad.clone());
+                        let r = CooperativeUtils::process_vec_yielding(vals.clone(), k, move |x: u64| {
+                            c2.lock().unwrap().push(x);
+                            if b2.contains(&x) { Err(ZiporaError::invalid_data("injected item failure")) } else { Ok(fiber_f(x)) }
+                        })
+                        .await;
+                        judge_seq(r, "process_vec_yielding")
+                    }
+                    2 => {
+                        let (c2, b2) = (calls.clone(), bad.clone());
+                        let out: Arc<Mutex<Vec<u64>>> = Arc::new(Mutex::new(vec![]));
+                        let out2 = out.clone();
+                        let r = YieldingIterator::new(vals.clone().into_iter(), k)
+                            .for_each(move |x: u64| {
+                                c2.lock().unwrap().push(x);
+                                if b2.contains(&x) {
+                                    Err(ZiporaError::invalid_data("injected item failure"))
+                                } else {
+                                    out2.lock().unwrap().push(fiber_f(x));
+                                    Ok(())
+                                }
+                            })
+                            .await;
+                        let produced = out.lock().unwrap().clone();
+                        match r {
+                            Ok(count) if first_bad.is_none() && count != n => Some(("result_count_mismatch".to_string(), format!("for_each returned Ok({}) for {} items", count, n))),
+                            Ok(_) => judge_seq(Ok(produced), "YieldingIterator::for_each"),
+                            Err(e) => judge_seq(Err(e), "YieldingIterator::for_each"),
+                        }
+                    }
+                    3 => {
+                        let v: Vec<u64> = YieldingIterator::new(vals.clone().into_iter(), k).collect().await;
+                        if v == vals { None } else { Some(("wrong_result".to_string(), format!("collect() gave {:?} for the iterator {:?}", v, vals))) }
+                    }
+                    4 | 6 => {
+                        let started: Arc<Mutex<Vec<u64>>> = Arc::new(Mutex::new(vec![]));
+                        let mk = |i: usize| {
+                            let (st, v, d, b) = (started.clone(), vals[i], delays[i], fails[i]);
+                            async move {
+                                st.lock().unwrap().push(v);
+                                fiber_item(v, d, b).await
+                            }
+                        };
+                        let r = if mode == 4 {
+                            CooperativeUtils::concurrent_with_yield((0..n).map(mk).collect(), k).await
+                        } else {
+                            // the "paths" are names only; the processor never opens them
+                            let by_name: BTreeMap<String, usize> = (0..n).map(|i| (format!("file{}", vals[i]), i)).collect();
+                            let (st, vals3, delays3, fails3) = (started.clone(), vals.clone(), delays.clone(), fails.clone());
+                            FiberIoUtils::process_files_parallel((0..n).map(|i| format!("file{}", vals[i])).collect::<Vec<String>>(), k, move |p: String| {
+                                let i = by_name[&p];
+                                let (st, v, d, b) = (st.clone(), vals3[i], delays3[i], fails3[i]);
+                                Box::pin(async move {
+                                    st.lock().unwrap().push(v);
+                                    fiber_item(v, d, b).await
+                                }) as Pin<Box<dyn Future<Output = ZResult<u64>> + Send>>
+                            })
+                            .await
+                        };
+                        let what = COOP_MODES[mode as usize];
+                        let exp_in_order: Vec<u64> = expect.clone();
+                        let mut st = started.lock().unwrap().clone();
+                        let mut dup = st.clone();
+                        dup.sort();
+                        dup.dedup();
+                        if dup.len() != st.len() {
+                            return Some(("operation_ran_twice".to_string(), format!("{} started the operations {:?}", what, st)));
+                        }
+                        match (r, first_bad) {
+                            (Ok(v), None) => {
+                                st.sort();
+                                let mut all = vals.clone();
+                                all.sort();
+                                let (mut a, mut b) = (v.clone(), exp_in_order.clone());
+                                a.sort();
+                                b.sort();
+                                if st != all {
+                                    Some(("operation_never_ran".to_string(), format!("{} returned Ok but started only {:?} of {:?}", what, st, all)))
+                                } else if a != b {
+                                    Some(("wrong_result".to_string(), format!("{} returned {:?}; the operations yield {:?}", what, v, exp_in_order)))
+                                } else if v != exp_in_order {
+                                    Some(("results_in_completion_order".to_string(), format!("{} returned {:?} for operations that, in the order given, yield {:?}: result k does not belong to input k", what, v, exp_in_order)))
+                                } else {
+                                    None
+                                }
+                            }
+                            (Ok(v), Some(b)) => Some(("failure_swallowed".to_string(), format!("item{} failed but {} returned Ok with {} results for {} inputs", b, what, v.len(), n))),
+                            (Err(_), Some(_)) => None,
+                            (Err(e), None) => Some(("spurious_error".to_string(), format!("no operation failed but {} returned Err({})", what, e))),
+                        }
+                    }
+                    _ => {
+                        let chunks: Arc<Mutex<Vec<Vec<u64>>>> = Arc::new(Mutex::new(vec![]));
+                        let (ch2, b2, vals3, delays3) = (chunks.clone(), bad.clone(), vals.clone(), delays.clone());
+                        let r = FiberIoUtils::batch_process(vals.clone(), k, move |chunk: Vec<u64>| {
+                            ch2.lock().unwrap().push(chunk.clone());
+                            let d: u64 = chunk.iter().map(|v| delays3[vals3.iter().position(|x| x == v).unwrap_or(0)] % 8).sum();
+                            let failing = chunk.iter().any(|v| b2.contains(v));
+                            Box::pin(async move {
+                                if d > 0 {
+                                    tokio::time::sleep(Duration::from_millis(d)).await;
+                                }
+                                if failing { Err(ZiporaError::invalid_data("injected batch failure")) } else { Ok(chunk.into_iter().map(fiber_f).collect()) }
+                            }) as Pin<Box<dyn Future<Output = ZResult<Vec<u64>>> + Send>>
+                        })
+                        .await;
+                        let chunks = chunks.lock().unwrap().clone();
+                        let flat: Vec<u64> = chunks.iter().flatten().cloned().collect();
+                        if let Some(c) = chunks.iter().find(|c| c.len() > k) {
+                            return Some(("batch_too_large".to_string(), format!("batch_process handed the processor a batch of {} items with batch_size {}", c.len(), k)));
+                        }
+                        if flat.len() > n || flat[..] != vals[..flat.len()] {
+                            return Some(("wrong_or_shifted_batches".to_string(), format!("batches {:?} are not the items {:?} cut in order", chunks, vals)));
+                        }
+                        match (r, first_bad) {
+                            (Ok(v), None) if v == expect && flat.len() == n => None,
+                            (Ok(v), None) => Some(("wrong_result".to_string(), format!("batch_process returned {:?} (batches {:?}); sequential map gives {:?}", v, chunks, expect))),
+                            (Ok(v), Some(b)) => Some(("failure_swallowed".to_string(), format!("the batch with item{} failed but batch_process returned Ok with {} results for {} inputs", b, v.len(), n))),
+                            (Err(_), Some(_)) => None,
+                            (Err(e), None) => Some(("spurious_error".to_string(), format!("no batch failed but batch_process returned Err({})", e))),
+                        }
+                    }
+                }
+            };
+            match tokio::time::timeout(Duration::from_secs(600), work).await {
+                Ok(v) => v,
+                Err(_) => Some(("operation_never_completed".to_string(), format!("{} on {} items did not return within 600 virtual seconds", COOP_MODES[mode as usize], n))),
+            }
+        });
+        drop(rt);
+        cx.steps = n as u64;
+        cx.nontrivial = n >= 2;
+        if first_bad.is_some() {
+            cx.fault("item_failure");
+        }
+        if k == n && n >= 2 {
+            cx.probe("interval_equals_item_count");
+        }
+        cx.cell(format!("{}/k{}/{}", COOP_MODES[mode as usize], knob, if first_bad.is_some() { "fail" } else { "ok" }));
+        if let Some((class, detail)) = verdict {
+            cx.violate(&class, &site, detail);
+        }
+    }
+}
+
+// ------------------------------------------------------------------------------------------
+// audit: put_batch / get_batch of the in-memory async blob store (tokio locks only; no files, no blocking pool)
+
+struct MemBlobs;
+
+impl Scenario for MemBlobs {
+    fn name(&self) -> String {
+        "AsyncMemoryBlobStore/batch".into()
+    }
+    fn budget(&self, tier: Tier) -> u64 {
+        match tier {
+            Tier::Quick => 4000,
+            Tier::Thorough => 300_000,
+        }
+    }
+    fn run(&self, cx: &mut Run) {
+        use zipora::concurrency::async_blob_store::{AsyncBlobStore, AsyncMemoryBlobStore};
+        zsim_core::hooks::reset();
+        let cfg = cx.src.chan("cfg");
+        let with_cap = cfg.chance(1, 2);
+        let planned = 1 + cfg.below(10);
+        let mut ops = cx.src.ops("ops", planned);
+        let mut list: Vec<[u64; 4]> = vec![];
+        while let Some(o) = ops.next() {
+            list.push(o);
+        }
+        cx.ev(format!("memory blob store with_capacity={} operations={}", with_cap, list.len()));
+        let rt = runtime();
+        let mut evs: Vec<String> = vec![];
+        let mut steps = 0u64;
+        let verdict: Option<(String, String, String)> = rt.block_on(async {
+            let store = if with_cap { AsyncMemoryBlobStore::with_capacity(4) } else { AsyncMemoryBlobStore::new() };
+            // model: id -> bytes; every blob is unique (serial number in the first byte)
+            let mut model: BTreeMap<u32, Vec<u8>> = BTreeMap::new();
+            let mut ever: Vec<u32> = vec![];
+            let mut serial = 0u8;
+            for o in list.iter() {
+                steps += 1;
+                match o[0] % 5 {
+                    0 | 1 => {
+                        let k = (o[1] % 5) as usize;
+                        let blobs: Vec<Vec<u8>> = (0..k)
+                            .map(|j| {
+                                serial = serial.wrapping_add(1);
+                                let len = [0usize, 1, 3, 8][((o[2] >> (2 * j)) % 4) as usize];
+                                let mut b = vec![serial];
+                                b.extend(std::iter::repeat(0xA0 + j as u8).take(len));
+                                b
+                            })
+                            .collect();
+                        let r = store.put_batch(blobs.iter().map(|b| b.as_slice()).collect()).await;
+                        evs.push(format!("put_batch({} blobs) -> {:?}", k, r.as_ref().map_err(|e| e.to_string())));
+                        match r {
+                            Ok(ids) => {
+                                if ids.len() != k {
+                                    return Some(("result_count_mismatch".to_string(), "AsyncMemoryBlobStore.put_batch".to_string(), format!("{} ids for {} blobs", ids.len(), k)));
+                                }
+                                for (id, b) in ids.iter().zip(blobs.iter()) {
+                                    // (an id of a removed record may legitimately come back; two live records may not share one)
+                                    if model.contains_key(id) {
+                                        return Some(("id_of_live_record_reused".to_string(), "AsyncMemoryBlobStore.put_batch".to_string(), format!("put_batch returned id {}, which already names a live record (live ids {:?})", id, model.keys().collect::<Vec<_>>())));
+                                    }
+                                    ever.push(*id);
+                                    model.insert(*id, b.clone());
+                                }
+                            }
+                            Err(e) => return Some(("spurious_error".to_string(), "AsyncMemoryBlobStore.put_batch".to_string(), format!("put_batch returned Err({})", e))),
+                        }
+                    }
+                    2 => {
+                        if let Some(&id) = model.keys().nth((o[1] as usize) % model.len().max(1)) {
+                            let r = store.remove(id).await;
+                            evs.push(format!("remove({}) -> {}", id, if r.is_ok() { "ok" } else { "err" }));
+                            model.remove(&id);
+                        }
+                    }
+                    _ => {
+                        // ids in a seeded order, with repeats; sometimes one id that was removed or never existed
+                        let live: Vec<u32> = model.keys().cloned().collect();
+                        let k = (o[1] % 5) as usize;
+                        let mut ids: Vec<u32> = (0..k).filter(|_| !live.is_empty()).map(|j| live[((o[2] >> (3 * j)) as usize) % live.len()]).collect();
+                        let poison = o[3] % 4 == 0;
+                        if poison {
+                            let dead = ever.iter().cloned().find(|id| !model.contains_key(id)).unwrap_or(4_000_000);
+                            let at = (o[3] as usize / 4) % (ids.len() + 1);
+                            ids.insert(at, dead);
+                        }
+                        let r = store.get_batch(ids.clone()).await;
+                        evs.push(format!("get_batch({:?}) -> {}", ids, match &r { Ok(v) => format!("{} blobs", v.len()), Err(_) => "err".to_string() }));
+                        let expect: Option<Vec<Vec<u8>>> = ids.iter().map(|id| model.get(id).cloned()).collect();
+                        match (r, expect) {
+                            (Ok(v), Some(e)) if v == e => {}
+                            (Ok(v), Some(e)) => return Some(("wrong_or_shifted_output".to_string(), "AsyncMemoryBlobStore.get_batch".to_string(), format!("get_batch({:?}) returned {:?}; the records are {:?}", ids, v, e))),
+                            (Ok(v), None) => return Some(("failure_swallowed".to_string(), "AsyncMemoryBlobStore.get_batch".to_string(), format!("get_batch({:?}) names a record that does not exist but returned Ok with {} blobs", ids, v.len()))),
+                            (Err(_), None) => {}
+                            (Err(e), Some(_)) => return Some(("spurious_error".to_string(), "AsyncMemoryBlobStore.get_batch".to_string(), format!("every id of get_batch({:?}) exists but it returned Err({})", ids, e))),
+                        }
+                    }
+                }
+                let len = store.len().await;
+                if len != model.len() {
+                    return Some(("len_mismatch".to_string(), "AsyncMemoryBlobStore.len".to_string(), format!("len()={} but {} records are stored", len, model.len())));
+                }
+            }
+            None
+        });
+        drop(rt);
+        for e in evs {
+            cx.ev(e);
+        }
+        cx.steps = steps;
+        cx.nontrivial = steps >= 2;
+        if let Some((class, site, detail)) = verdict {
+            cx.violate(&class, &site, detail);
+        }
+    }
+}
+
+// ------------------------------------------------------------------------------------------
+// audit: the stage types the library ships (MapStage, BatchMapStage with and without a batch function,
+// FilterStage), several calls on one pipeline, inputs that repeat and are not sorted
+
+struct BuiltinStages;
+
+const BUILTIN_MODES: [&str; 7] = ["MapStage.process_batch", "BatchMapStage-plain.process_batch", "BatchMapStage-batch.process_batch", "BatchMapStage-plain.direct", "FilterStage.process_batch", "MapStage.execute_stream", "MapStage+FilterStage.execute_two_stage"];
+
+fn bs_f(x: u64) -> u64 {
+    x * 2 + 1
+}
+fn bs_bad(x: u64, may_fail: bool) -> bool {
+    may_fail && x % 7 == 3
+}
+fn bs_map(may_fail: bool) -> impl Fn(u64) -> ZResult<u64> + Send + Sync + Clone + 'static {
+    move |x: u64| if bs_bad(x, may_fail) { Err(ZiporaError::invalid_data("injected stage failure")) } else { Ok(bs_f(x)) }
+}
+
+impl Scenario for BuiltinStages {
+    fn name(&self) -> String {
+        "Pipeline/builtin-stages".into()
+    }
+    fn budget(&self, tier: Tier) -> u64 {
+        match tier {
+            Tier::Quick => 8000,
+            Tier::Thorough => 500_000,
+        }
+    }
+    fn run(&self, cx: &mut Run) {
+        zsim_core::hooks::reset();
+        let cfg = cx.src.chan("cfg");
+        let mode = cfg.below(BUILTIN_MODES.len() as u64);
+        let batching = cfg.chance(1, 2);
+        let may_fail = cfg.chance(1, 2);
+        let buffer = 1 + cfg.below(3) as usize;
+        let nstages = 1 + cfg.below(3) as usize;
+        let n_calls = 1 + cfg.biased_zero(3, 1, 2) as usize;
+        let relation = cfg.below(4);
+        let planned = cfg.below(8);
+        let mut ops = cx.src.ops("ops", planned);
+        let mut raw: Vec<u64> = vec![];
+        while let Some(o) = ops.next() {
+            if raw.len() < 8 {
+                // small alphabet: repeats happen
+                raw.push((o[0] % 6) * 10 + o[1] % 3);
+            }
+        }
+        // relationships between the inputs of consecutive calls: as drawn / sorted / reverse-sorted / all the same
+        match relation {
+            1 => raw.sort(),
+            2 => {
+                raw.sort();
+                raw.reverse()
+            }
+            3 => {
+                if let Some(&f) = raw.first() {
+                    raw = vec![f; raw.len()];
+                }
+            }
+            _ => {}
+        }
+        let n = raw.len();
+        cx.ev(format!("mode={} batching={} may_fail={} buffer={} stages={} calls={} inputs={:?}", BUILTIN_MODES[mode as usize], batching, may_fail, buffer, nstages, n_calls, raw));
+        let site = format!("Pipeline.{}", BUILTIN_MODES[mode as usize]);
+        let rt = runtime();
+        let mut evs: Vec<String> = vec![];
+        let verdict: Option<(String, String)> = rt.block_on(async {
+            let pipeline = PipelineBuilder::new().buffer_size(buffer).enable_batching(batching).stage_timeout(Duration::from_secs(5)).build();
+            // the same pipeline serves every call; the inputs are dealt out to the calls in order
+            let per = (n + n_calls - 1) / n_calls.max(1);
+            for c in 0..n_calls {
+                let inputs: Vec<u64> = raw.iter().cloned().skip(c * per).take(per).collect();
+                let m = inputs.len();
+                let first_bad = inputs.iter().position(|&x| bs_bad(x, may_fail));
+                let expect: Vec<u64> = inputs.iter().map(|&x| bs_f(x)).collect();
+                let judge = |r: ZResult<Vec<u64>>, expect: &Vec<u64>, first_bad: Option<usize>| -> Option<(String, String)> {
+                    match (r, first_bad) {
+                        (Ok(v), None) if &v == expect => None,
+                        (Ok(v), None) => Some(("wrong_result".to_string(), format!("call {} on {:?} returned {:?}, sequential map gives {:?}", c, inputs, v, expect))),
+                        (Ok(v), Some(b)) => Some(("failure_swallowed".to_string(), format!("call {}: input{} of {:?} fails but Ok with {} results came back", c, b, inputs, v.len()))),
+                        (Err(_), Some(_)) => None,
+                        (Err(e), None) => Some(("spurious_error".to_string(), format!("call {} on {:?}: no input fails but Err({}) came back", c, inputs, e))),
+                    }
+                };
+                type NoBatch = fn(Vec<u64>) -> ZResult<Vec<u64>>;
+                let v = match mode {
+                    0 => judge(pipeline.process_batch(MapStage::new("map".to_string(), bs_map(may_fail)), inputs.clone()).await, &expect, first_bad),
+                    1 => judge(pipeline.process_batch(BatchMapStage::<_, NoBatch>::new("bmap".to_string(), bs_map(may_fail)), inputs.clone()).await, &expect, first_bad),
+                    2 => {
+                        let stage = BatchMapStage::with_batch_support("bmap".to_string(), bs_map(may_fail), move |b: Vec<u64>| b.into_iter().map(bs_map(may_fail)).collect::<ZResult<Vec<u64>>>());
+                        judge(pipeline.process_batch(stage, inputs.clone()).await, &expect, first_bad)
+                    }
+                    3 => {
+                        let stage = BatchMapStage::<_, NoBatch>::new("bmap".to_string(), bs_map(may_fail));
+                        judge(PipelineStage::<u64, u64>::process_batch(&stage, inputs.clone()).await, &expect, first_bad)
+                    }
+                    4 => {
+                        let r = pipeline.process_batch(FilterStage::new("odd".to_string(), |x: &u64| *x % 2 == 1), inputs.clone()).await;
+                        let e: Vec<Option<u64>> = inputs.iter().map(|&x| if x % 2 == 1 { Some(x) } else { None }).collect();
+                        match r {
+                            Ok(v) if v == e => None,
+                            Ok(v) => Some(("wrong_result".to_string(), format!("call {}: filter over {:?} returned {:?}, expected {:?}", c, inputs, v, e))),
+                            Err(e) => Some(("spurious_error".to_string(), format!("call {}: a filter cannot fail but Err({}) came back", c, e))),
+                        }
+                    }
+                    5 => {
+                        let (in_tx, in_rx) = mpsc::channel::<u64>(buffer);
+                        let (out_tx, mut out_rx) = mpsc::channel::<u64>(buffer);
+                        // stage s maps x -> 2x+1; only the first stage can fail (on the raw input)
+                        let stages: Vec<Box<dyn PipelineStage<u64, u64>>> = (0..nstages)
+                            .map(|s| if s % 2 == 0 { Box::new(MapStage::new(format!("m{}", s), bs_map(may_fail && s == 0))) as Box<dyn PipelineStage<u64, u64>> } else { Box::new(BatchMapStage::<_, NoBatch>::new(format!("b{}", s), bs_map(false))) as Box<dyn PipelineStage<u64, u64>> })
+                            .collect();
+                        let inputs2 = inputs.clone();
+                        let producer = tokio::spawn(async move {
+                            for x in inputs2 {
+                                if in_tx.send(x).await.is_err() {
+                                    break;
+                                }
+                            }
+                        });
+                        let consumer = tokio::spawn(async move {
+                            let mut got = vec![];
+                            while let Some(v) = out_rx.recv().await {
+                                got.push(v);
+                            }
+                            got
+                        });
+                        let r = pipeline.execute_stream(stages, in_rx, out_tx).await;
+                        let _ = producer.await;
+                        let got = consumer.await.unwrap_or_default();
+                        let e: Vec<u64> = inputs.iter().map(|&x| (0..nstages).fold(x, |a, _| bs_f(a))).collect();
+                        let is_prefix = got.len() <= e.len() && got[..] == e[..got.len()];
+                        if !is_prefix {
+                            Some(("wrong_or_shifted_output".to_string(), format!("call {}: stream over {:?} produced {:?}; sequential application gives {:?}", c, inputs, got, e)))
+                        } else {
+                            match (&r, first_bad) {
+                                (Ok(()), None) if got.len() == m => None,
+                                (Ok(()), None) => Some(("missing_output".to_string(), format!("call {}: no stage failed, Ok returned, but only {} of {} outputs arrived", c, got.len(), m))),
+                                (Ok(()), Some(b)) => Some(("failure_swallowed".to_string(), format!("call {}: input{} fails in stage 0 but execute_stream returned Ok(()) with {} of {} outputs", c, b, got.len(), m))),
+                                (Err(_), Some(_)) => None,
+                                (Err(e), None) => Some(("spurious_error".to_string(), format!("call {}: no stage failed but execute_stream returned Err({})", c, e))),
+                            }
+                        }
+                    }
+                    _ => {
+                        // one call per input, one after the other on the same pipeline: a failed call must not
+                        // disturb the following ones
+                        let mut v = None;
+                        for (i, &x) in inputs.iter().enumerate() {
+                            let r = pipeline.execute_two_stage(MapStage::new("map".to_string(), bs_map(may_fail)), FilterStage::new("big".to_string(), |y: &u64| *y >= 50), x).await;
+                            let e = if bs_bad(x, may_fail) { None } else { Some(if bs_f(x) >= 50 { Some(bs_f(x)) } else { None }) };
+                            v = match (r, e) {
+                                (Ok(got), Some(e)) if got == e => None,
+                                (Ok(got), Some(e)) => Some(("wrong_result".to_string(), format!("call {} input{} ({}): got {:?} expected {:?}", c, i, x, got, e))),
+                                (Ok(got), None) => Some(("failure_swallowed".to_string(), format!("call {} input{} ({}) fails in stage 1 but Ok({:?}) came back", c, i, x, got))),
+                                (Err(_), None) => None,
+                                (Err(err), Some(_)) => Some(("spurious_error".to_string(), format!("call {} input{} ({}): no stage fails but Err({}) came back", c, i, x, err))),
+                            };
+                            if v.is_some() {
+                                break;
+                            }
+                        }
+                        v
+                    }
+                };
+                evs.push(format!("call {} on {:?}: {}", c, inputs, if v.is_none() { "as the sequential application" } else { "VIOLATES" }));
+                if v.is_some() {
+                    return v;
+                }
+            }
+            None
+        });
+        drop(rt);
+        for e in evs {
+            cx.ev(e);
+        }
+        cx.steps = n as u64;
+        cx.nontrivial = n >= 1;
+        if raw.iter().any(|&x| bs_bad(x, may_fail)) {
+            cx.fault("stage_failure");
+        }
+        let mut d = raw.clone();
+        d.sort();
+        d.dedup();
+        if d.len() < raw.len() {
+            cx.probe("repeated_input_values");
+        }
+        cx.cell(format!("{}/{}/{}", BUILTIN_MODES[mode as usize], if batching { "batching" } else { "single" }, relation));
+        if let Some((class, detail)) = verdict {
+            cx.violate(&class, &site, detail);
+        }
+    }
+}
+
+// ------------------------------------------------------------------------------------------
+// audit: BatchCollector driven call by call (add / check_timeout / flush / len / is_empty in any order,
+// reuse after flush), no background checker: an exact model
+
+struct CollectorOps;
+
+impl Scenario for CollectorOps {
+    fn name(&self) -> String {
+        "BatchCollector/ops".into()
+    }
+    fn budget(&self, tier: Tier) -> u64 {
+        match tier {
+            Tier::Quick => 8000,
+            Tier::Thorough => 500_000,
+        }
+    }
+    fn run(&self, cx: &mut Run) {
+        zsim_core::hooks::reset();
+        let cfg = cx.src.chan("cfg");
+        let max_batch = 1 + cfg.below(5) as usize;
+        let timeout_ms = *cfg.pick(&[0u64, 4, 20]);
+        let adders = 1 + cfg.biased_zero(3, 1, 3) as usize;
+        let planned = 1 + cfg.below(20);
+        let mut ops = cx.src.ops("ops", planned);
+        let mut list: Vec<[u64; 4]> = vec![];
+        while let Some(o) = ops.next() {
+            list.push(o);
+        }
+        cx.ev(format!("collector max_batch_size={} batch_timeout={}ms operations={} adders={}", max_batch, timeout_ms, list.len(), adders));
+        let rt = runtime();
+        let mut evs: Vec<String> = vec![];
+        let mut steps = 0u64;
+        let mut timeouts = 0u64;
+        let verdict: Option<(String, String, String)> = rt.block_on(async {
+            let collector: Arc<BatchCollector<u64>> = Arc::new(BatchCollector::new(max_batch, Duration::from_millis(timeout_ms)));
+            let mut added = 0u64; // items are 0, 1, 2, ... in the order they were handed in
+            let mut out: Vec<u64> = vec![];
+            let check_batch = |how: &str, b: &Vec<u64>, out: &mut Vec<u64>, added: u64| -> Option<(String, String, String)> {
+                if b.len() > max_batch {
+                    return Some(("batch_too_large".to_string(), "BatchCollector.batch_size".to_string(), format!("{} returned a batch of {} items with max_batch_size {}", how, b.len(), max_batch)));
+                }
+                for &x in b {
+                    if out.contains(&x) {
+                        return Some(("item_in_two_batches".to_string(), "BatchCollector.exactly_once".to_string(), format!("{} returned {:?}; item {} had already come out ({:?})", how, b, x, out)));
+                    }
+                    if x >= added {
+                        return Some(("item_never_added".to_string(), "BatchCollector.exactly_once".to_string(), format!("{} returned {:?}; only items below {} were handed in", how, b, added)));
+                    }
+                    if x != out.len() as u64 {
+                        return Some(("items_reordered".to_string(), "BatchCollector.order".to_string(), format!("{} returned {:?} after {:?} had come out: item {} is skipped or out of order", how, b, out, out.len())));
+                    }
+                    out.push(x);
+                }
+                None
+            };
+            for o in list.iter() {
+                steps += 1;
+                match o[0] % 10 {
+                    0..=4 => {
+                        if adders > 1 && o[1] % 3 == 0 {
+                            // several tasks inside add() at once; the items count as handed in, in spawn order
+                            let k = adders.min(3);
+                            let handles: Vec<_> = (0..k as u64)
+                                .map(|j| {
+                                    let (c, item) = (collector.clone(), added + j);
+                                    tokio::spawn(async move { c.add(item).await })
+                                })
+                                .collect();
+                            added += k as u64;
+                            for (j, h) in handles.into_iter().enumerate() {
+                                if let Ok(Ok(Some(b))) = h.await {
+                                    evs.push(format!("concurrent add #{} -> batch {:?}", j, b));
+                                    if let Some(v) = check_batch("add()", &b, &mut out, added) {
+                                        return Some(v);
+                                    }
+                                }
+                            }
+                        } else {
+                            let item = added;
+                            added += 1;
+                            let r = collector.add(item).await;
+                            evs.push(format!("add({}) -> {:?}", item, r.as_ref().map_err(|e| e.to_string())));
+                            if let Ok(Some(b)) = r {
+                                if let Some(v) = check_batch("add()", &b, &mut out, added) {
+                                    return Some(v);
+                                }
+                            }
+                        }
+                    }
+                    5 => {
+                        let r = collector.flush().await;
+                        evs.push(format!("flush() -> {:?}", r.as_ref().map_err(|e| e.to_string())));
+                        if let Ok(Some(b)) = r {
+                            if let Some(v) = check_batch("flush()", &b, &mut out, added) {
+                                return Some(v);
+                            }
+                        }
+                        if out.len() as u64 != added {
+                            return Some(("item_lost".to_string(), "BatchCollector.exactly_once".to_string(), format!("after flush() {} items were handed in but only {:?} came out", added, out)));
+                        }
+                    }
+                    6 | 7 => {
+                        let r = collector.check_timeout().await;
+                        evs.push(format!("check_timeout() -> {:?}", r.as_ref().map_err(|e| e.to_string())));
+                        if let Ok(Some(b)) = r {
+                            timeouts += 1;
+                            if let Some(v) = check_batch("check_timeout()", &b, &mut out, added) {
+                                return Some(v);
+                            }
+                        }
+                    }
+                    _ => {
+                        let ms = [1u64, 2, timeout_ms, timeout_ms + 1][(o[1] % 4) as usize];
+                        tokio::time::sleep(Duration::from_millis(ms)).await;
+                        evs.push(format!("sleep {}ms", ms));
+                    }
+                }
+                let (len, empty) = (collector.len().await, collector.is_empty().await);
+                let pending = added as usize - out.len();
+                if len != pending || empty != (pending == 0) {
+                    return Some(("len_mismatch".to_string(), "BatchCollector.len".to_string(), format!("len()={} is_empty()={} but {} items were handed in and {} have come out", len, empty, added, out.len())));
+                }
+            }
+            let r = collector.flush().await;
+            evs.push(format!("final flush() -> {:?}", r.as_ref().map_err(|e| e.to_string())));
+            if let Ok(Some(b)) = r {
+                if let Some(v) = check_batch("flush()", &b, &mut out, added) {
+                    return Some(v);
+                }
+            }
+            if out.len() as u64 != added {
+                return Some(("item_lost".to_string(), "BatchCollector.exactly_once".to_string(), format!("{} items were handed in; after the final flush only {:?} came out", added, out)));
+            }
+            None
+        });
+        drop(rt);
+        for e in evs {
+            cx.ev(e);
+        }
+        cx.steps = steps;
+        cx.nontrivial = steps >= 2;
+        cx.probe_n("batch_from_check_timeout", timeouts);
+        if let Some((class, site, detail)) = verdict {
+            cx.violate(&class, &site, detail);
+        }
+    }
+}
+
+// ------------------------------------------------------------------------------------------
+// audit: the one place where submit() refuses - the global queue's limit of 10 000 tasks
+
+struct GlobalFull;
+
+impl Scenario for GlobalFull {
+    fn name(&self) -> String {
+        "WorkStealingExecutor/global-queue-full".into()
+    }
+    fn budget(&self, tier: Tier) -> u64 {
+        match tier {
+            Tier::Quick => 32,
+            Tier::Thorough => 1600,
+        }
+    }
+    fn run(&self, cx: &mut Run) {
+        const LIMIT: u64 = 10_000;
+        zsim_core::hooks::reset();
+        let cfg = cx.src.chan("cfg");
+        let workers = 1 + cfg.below(2) as usize;
+        let capacity = 1 + cfg.below(3) as usize;
+        // a handful more than the local queues and the global queue hold together
+        let extra = cfg.below(6);
+        let short = cfg.below(3); // or a handful fewer: nothing may be refused then... (0 = reach the limit)
+        let total = (workers * capacity) as u64 + LIMIT + extra - if extra == 0 { short } else { 0 };
+        let prio_mix = cfg.below(3);
+        install_yields(cx.src.chan("sched"));
+        cx.ev(format!("executor workers={} capacity={} tasks={} priorities={}", workers, capacity, total, ["all 0", "ascending in blocks", "i % 4"][prio_mix as usize]));
+        let log: Arc<Mutex<Vec<u64>>> = Arc::new(Mutex::new(vec![]));
+        let rt = runtime();
+        let log2 = log.clone();
+        let (accepted, refused, idle, executed) = rt.block_on(async {
+            let log = log2;
+            let ex = WorkStealingExecutor::new(workers, capacity).expect("executor");
+            let mut accepted: Vec<u64> = vec![];
+            let mut refused: Vec<u64> = vec![];
+            // no await in this loop: the workers do not run, the queues only fill
+            for id in 0..total {
+                let prio = match prio_mix {
+                    0 => 0,
+                    1 => (id * 4 / total.max(1)) as u8,
+                    _ => (id % 4) as u8,
+                };
+                let l = log.clone();
+                let task = ClosureTask::new(move || {
+                    Box::pin(async move {
+                        l.lock().unwrap().push(id);
+                        Ok(())
+                    }) as Pin<Box<dyn Future<Output = ZResult<()>> + Send>>
+                })
+                .with_priority(prio)
+                .with_stealable(id % 3 != 0);
+                if ex.submit(Box::new(task)).is_ok() {
+                    accepted.push(id);
+                } else {
+                    refused.push(id);
+                }
+            }
+            let deadline = tokio::time::Instant::now() + Duration::from_millis(5000);
+            loop {
+                if (log.lock().unwrap().len() >= accepted.len() && ex.is_idle()) || tokio::time::Instant::now() >= deadline {
+                    break;
+                }
+                tokio::time::sleep(Duration::from_millis(5)).await;
+            }
+            let r = (ex.is_idle(), ex.stats().total_executed);
+            let _ = ex.shutdown().await;
+            (accepted, refused, r.0, r.1)
+        });
+        drop(rt);
+        zsim_core::hooks::reset();
+        let log = log.lock().unwrap();
+        cx.ev(format!("{} accepted, {} refused (first refused: {:?}), {} ran", accepted.len(), refused.len(), refused.first(), log.len()));
+        cx.steps = total;
+        cx.nontrivial = true;
+        cx.probe_n("tasks_refused", refused.len() as u64);
+        let mut count = vec![0u8; total as usize];
+        for &id in log.iter() {
+            count[id as usize] = count[id as usize].saturating_add(1);
+        }
+        if let Some(id) = (0..total).find(|&i| count[i as usize] > 1) {
+            cx.violate("task_ran_twice", "WorkStealingExecutor.exactly_once", format!("task{} ran {} times", id, count[id as usize]));
+            return;
+        }
+        if let Some(&id) = refused.iter().find(|&&i| count[i as usize] > 0) {
+            cx.violate("refused_task_ran", "WorkStealingExecutor.exactly_once", format!("task{} was refused by submit but ran", id));
+            return;
+        }
+        let missing: Vec<u64> = accepted.iter().filter(|&&i| count[i as usize] == 0).cloned().collect();
+        if !missing.is_empty() {
+            cx.violate("task_never_ran", "WorkStealingExecutor.liveness", format!("{} of {} accepted tasks never ran (first: task{}; {} were refused); workers={} capacity={}", missing.len(), accepted.len(), missing[0], refused.len(), workers, capacity));
+            return;
+        }
+        if !idle || executed != accepted.len() as u64 {
+            cx.violate("not_idle_at_quiescence", "WorkStealingExecutor.is_idle", format!("is_idle()={} total_executed={} accepted={}", idle, executed, accepted.len()));
+        }
+    }
+}
+
 fn main() {
     let mut spec = CheckSpec::new(
         "C18",
         "exploration",
-        "seeded virtual-time executions (tokio current_thread runtime, paused clock): seeded worker count / capacities / task multisets / submit instants / body delays / failing and never-completing stage items / cooperative yields inside the worker loop / clock jumps; \
+        "seeded virtual-time executions (tokio current_thread runtime, paused clock): seeded worker count / capacities / task multisets / submit instants / body delays / failing tasks / tasks that submit tasks / second wave after idle / failing and never-completing stage items / cooperative yields inside the worker loop / clock jumps; \
+         queue operations (push_local, pop_local, steal, balance, len) against a model and under a seeded thread scheduler; \
          non-trivial = at least two tasks or items; distinct = distinct hash of the (virtual time, event) trace",
     );
     spec.assumptions = vec![
         "tokio's current_thread scheduler: tasks interleave only at await points; interleavings that only a multi-thread runtime can produce inside one poll are not explored".into(),
         "liveness bound: after submissions stop, every accepted task has run within (sum of body delays + 2 virtual seconds)".into(),
-        "async_blob_store.rs and fiber_aio.rs go through tokio's blocking pool and real files and are not simulated".into(),
+        "AsyncFileStore, AsyncCompressedBlobStore and FiberAio/FiberFile go through tokio's blocking pool and real files and are not simulated; of those two files only AsyncMemoryBlobStore's batch calls and FiberIoUtils::{batch_process, process_files_parallel} (with processors that open no file) run".into(),
+        "WorkStealingExecutor::{init, global} and init_concurrency are process-global (OnceLock) and their workers die with the first runtime; they are not driven".into(),
+        "is_idle() is sampled from the driver task between the workers' turns; 'idle' while an accepted task has not run is reported after every other clause of the run has been judged".into(),
     ];
     spec.components = vec![
         ("concurrency::work_stealing::{WorkStealingExecutor, WorkStealingQueue}", "real"),
@@ -775,7 +2339,12 @@ fn main() {
         ("tokio runtime", "real current_thread runtime, clock paused (virtual time)"),
         ("client threads calling submit() concurrently", "real OS threads, one at a time under the E1 baton scheduler (scheduling point at every queue lock / atomic)"),
         ("task bodies / PipelineStage implementations / producers / consumers", "harness actors (seeded delays, failures, hangs)"),
-        ("concurrency::{async_blob_store, fiber_aio}", "not run"),
+        ("concurrency::work_stealing::WorkStealingQueue driven directly", "real; sequentially against a set model, and by 2-3 OS threads under the E1 baton scheduler"),
+        ("concurrency::{spawn, join_all, parallel_map, parallel_reduce}", "real"),
+        ("concurrency::fiber_yield::{CooperativeUtils, YieldingIterator}, concurrency::fiber_aio::FiberIoUtils", "real (processors are harness closures; no file is opened)"),
+        ("concurrency::pipeline::{MapStage, BatchMapStage, FilterStage, PipelineBuilder}", "real"),
+        ("concurrency::async_blob_store::AsyncMemoryBlobStore::{put_batch, get_batch}", "real"),
+        ("concurrency::{async_blob_store::{AsyncFileStore, AsyncCompressedBlobStore}, fiber_aio::{FiberAio, FiberFile, VectoredIo}}", "not run"),
     ];
     spec.init = zsim_props::install_hooks;
     spec.hang_secs = 60;
@@ -784,5 +2353,13 @@ fn main() {
     spec.scenarios.push(Box::new(Pipe));
     spec.scenarios.push(Box::new(Batches));
     spec.scenarios.push(Box::new(ConcurrentSubmit));
+    spec.scenarios.push(Box::new(GlobalFull));
+    spec.scenarios.push(Box::new(QueueModel));
+    spec.scenarios.push(Box::new(QueueThreads));
+    spec.scenarios.push(Box::new(FreeFns));
+    spec.scenarios.push(Box::new(Coop));
+    spec.scenarios.push(Box::new(MemBlobs));
+    spec.scenarios.push(Box::new(BuiltinStages));
+    spec.scenarios.push(Box::new(CollectorOps));
     zsim_core::driver::main(spec);
 }
